@@ -547,6 +547,21 @@ Xfer(tw, wl, fca) ==
    db_6_cas: if (word = dw) { word := Clr(dw, SPIN); return; } else { goto db_5_ld; };
   }
 
+  \* ------------------------------------------------------------------ nsync_cv_debug_state_and_waiters (debug.c:232-256)
+  procedure debug_cv()
+    variables cdw = 0, ck = 0;
+  {
+   dc_1_ld:  if ((cvword & CVNE) = 0) { return; };                               \* debug.c:238
+   dc_2_ld:  cdw := cvword;                                                      \* debug.c:241 nsync_spin_test_and_set_
+             if ((cdw & CVSPIN) # 0) { goto dc_d; };
+   dc_3_cas: if (cvword = cdw) { cvword := cdw | CVSPIN; ck := Len(cvq); goto dc_w_l; } else { goto dc_d; };
+   dc_d:     goto dc_2_ld;
+   dc_w_l:   if (ck = 0) { goto dc_4_st; };
+   dc_w1_ld: skip;                                                               \* debug.c:166 ATM_LOAD waiting
+   dc_w2_ld: ck := ck - 1; goto dc_w_l;                                          \* debug.c:173 ATM_LOAD remove_count
+   dc_4_st:  cvword := cdw; return;                                              \* debug.c:251 ATM_STORE_REL (&cv->word, word): word is what test_and_set returned
+  }
+
   \* ------------------------------------------------------------------ client
   \* Prog[self][ip] = [op |-> ..., lt, c, dl, cn, v, x, skip]
   process (thr \in Threads)
@@ -581,6 +596,7 @@ Xfer(tw, wl, fca) ==
          else if (CurOp(self).op = "signal") { ip[self] := ip[self] + 1; call cv_wake(FALSE); }
          else if (CurOp(self).op = "broadcast") { ip[self] := ip[self] + 1; call cv_wake(TRUE); }
          else if (CurOp(self).op = "debug") { ip[self] := ip[self] + 1; call debug_state(); }
+         else if (CurOp(self).op = "debugcv") { ip[self] := ip[self] + 1; call debug_cv(); }
          else if (CurOp(self).op = "notify") {                                     \* nsync_note_notify of the cancel note (atomic region)
            ip[self] := ip[self] + 1;
            note := TRUE;
@@ -638,7 +654,7 @@ VARIABLES lt_l, clear, old_, zlo, zhi, wcnt, lw, lt_u, old_u, tc, nwl, wtrs,
           ww, old_mu_, sdl, scn, lt, rc, old_t, c, dl_, cn_, old_mu_w, lt_, 
           first, out_, rc_, hadw, ata, so_, havel, tw, allr, omw, fca, sorw, 
           all, old_c, tws, alr, rmq, dl, cn, gen, old_cv, lt_c, rc_c, so, out, 
-          ndl, old, wq, dw, k
+          ndl, old, wq, dw, k, cdw, ck
 
 vars == << pc, word, queue, cvword, cvq, waiting, rmc, cvmu, wl, wc, sc, nww, 
            nwsem, sem, data, now, note, nreg, held, ret, sres, picked, sleeps, 
@@ -648,7 +664,7 @@ vars == << pc, word, queue, cvword, cvq, waiting, rmc, cvmu, wl, wc, sc, nww,
            lt_mu_, ww, old_mu_, sdl, scn, lt, rc, old_t, c, dl_, cn_, 
            old_mu_w, lt_, first, out_, rc_, hadw, ata, so_, havel, tw, allr, 
            omw, fca, sorw, all, old_c, tws, alr, rmq, dl, cn, gen, old_cv, 
-           lt_c, rc_c, so, out, ndl, old, wq, dw, k >>
+           lt_c, rc_c, so, out, ndl, old, wq, dw, k, cdw, ck >>
 
 ProcSet == (Threads)
 
@@ -763,6 +779,9 @@ Init == (* Global variables *)
         (* Procedure debug_state *)
         /\ dw = [ self \in ProcSet |-> 0]
         /\ k = [ self \in ProcSet |-> 0]
+        (* Procedure debug_cv *)
+        /\ cdw = [ self \in ProcSet |-> 0]
+        /\ ck = [ self \in ProcSet |-> 0]
         /\ stack = [self \in ProcSet |-> << >>]
         /\ pc = [self \in ProcSet |-> "c0"]
 
@@ -790,7 +809,7 @@ ls_1_ld(self) == /\ pc[self] = "ls_1_ld"
                                  hadw, ata, so_, havel, tw, allr, omw, fca, 
                                  sorw, all, old_c, tws, alr, rmq, dl, cn, gen, 
                                  old_cv, lt_c, rc_c, so, out, ndl, old, wq, dw, 
-                                 k >>
+                                 k, cdw, ck >>
 
 ls_d(self) == /\ pc[self] = "ls_d"
               /\ pc' = [pc EXCEPT ![self] = "ls_1_ld"]
@@ -805,7 +824,7 @@ ls_d(self) == /\ pc[self] = "ls_d"
                               cn_, old_mu_w, lt_, first, out_, rc_, hadw, ata, 
                               so_, havel, tw, allr, omw, fca, sorw, all, old_c, 
                               tws, alr, rmq, dl, cn, gen, old_cv, lt_c, rc_c, 
-                              so, out, ndl, old, wq, dw, k >>
+                              so, out, ndl, old, wq, dw, k, cdw, ck >>
 
 ls_2_cas(self) == /\ pc[self] = "ls_2_cas"
                   /\ IF word = old_[self]
@@ -835,7 +854,7 @@ ls_2_cas(self) == /\ pc[self] = "ls_2_cas"
                                   first, out_, rc_, hadw, ata, so_, havel, tw, 
                                   allr, omw, fca, sorw, all, old_c, tws, alr, 
                                   rmq, dl, cn, gen, old_cv, lt_c, rc_c, so, 
-                                  out, ndl, old, wq, dw, k >>
+                                  out, ndl, old, wq, dw, k, cdw, ck >>
 
 ls_3_cas(self) == /\ pc[self] = "ls_3_cas"
                   /\ IF word = old_[self]
@@ -856,7 +875,7 @@ ls_3_cas(self) == /\ pc[self] = "ls_3_cas"
                                   ata, so_, havel, tw, allr, omw, fca, sorw, 
                                   all, old_c, tws, alr, rmq, dl, cn, gen, 
                                   old_cv, lt_c, rc_c, so, out, ndl, old, wq, 
-                                  dw, k >>
+                                  dw, k, cdw, ck >>
 
 ls_4_st(self) == /\ pc[self] = "ls_4_st"
                  /\ waiting' = [waiting EXCEPT ![W(self)] = 1]
@@ -874,7 +893,7 @@ ls_4_st(self) == /\ pc[self] = "ls_4_st"
                                  hadw, ata, so_, havel, tw, allr, omw, fca, 
                                  sorw, all, old_c, tws, alr, rmq, dl, cn, gen, 
                                  old_cv, lt_c, rc_c, so, out, ndl, old, wq, dw, 
-                                 k >>
+                                 k, cdw, ck >>
 
 ls_5_ld(self) == /\ pc[self] = "ls_5_ld"
                  /\ old_' = [old_ EXCEPT ![self] = word]
@@ -891,7 +910,7 @@ ls_5_ld(self) == /\ pc[self] = "ls_5_ld"
                                  out_, rc_, hadw, ata, so_, havel, tw, allr, 
                                  omw, fca, sorw, all, old_c, tws, alr, rmq, dl, 
                                  cn, gen, old_cv, lt_c, rc_c, so, out, ndl, 
-                                 old, wq, dw, k >>
+                                 old, wq, dw, k, cdw, ck >>
 
 ls_6_cas(self) == /\ pc[self] = "ls_6_cas"
                   /\ IF word = old_[self]
@@ -912,7 +931,7 @@ ls_6_cas(self) == /\ pc[self] = "ls_6_cas"
                                   ata, so_, havel, tw, allr, omw, fca, sorw, 
                                   all, old_c, tws, alr, rmq, dl, cn, gen, 
                                   old_cv, lt_c, rc_c, so, out, ndl, old, wq, 
-                                  dw, k >>
+                                  dw, k, cdw, ck >>
 
 ls_7_ld(self) == /\ pc[self] = "ls_7_ld"
                  /\ IF waiting[W(self)] # 0
@@ -934,7 +953,7 @@ ls_7_ld(self) == /\ pc[self] = "ls_7_ld"
                                  hadw, ata, so_, havel, tw, allr, omw, fca, 
                                  sorw, all, old_c, tws, alr, rmq, dl, cn, gen, 
                                  old_cv, lt_c, rc_c, so, out, ndl, old, wq, dw, 
-                                 k >>
+                                 k, cdw, ck >>
 
 ls_8_p(self) == /\ pc[self] = "ls_8_p"
                 /\ sem[W(self)] > 0
@@ -953,7 +972,7 @@ ls_8_p(self) == /\ pc[self] = "ls_8_p"
                                 hadw, ata, so_, havel, tw, allr, omw, fca, 
                                 sorw, all, old_c, tws, alr, rmq, dl, cn, gen, 
                                 old_cv, lt_c, rc_c, so, out, ndl, old, wq, dw, 
-                                k >>
+                                k, cdw, ck >>
 
 lock_slow(self) == ls_1_ld(self) \/ ls_d(self) \/ ls_2_cas(self)
                       \/ ls_3_cas(self) \/ ls_4_st(self) \/ ls_5_ld(self)
@@ -980,7 +999,7 @@ us_1_ld(self) == /\ pc[self] = "us_1_ld"
                                  out_, rc_, hadw, ata, so_, havel, tw, allr, 
                                  omw, fca, sorw, all, old_c, tws, alr, rmq, dl, 
                                  cn, gen, old_cv, lt_c, rc_c, so, out, ndl, 
-                                 old, wq, dw, k >>
+                                 old, wq, dw, k, cdw, ck >>
 
 us_d(self) == /\ pc[self] = "us_d"
               /\ pc' = [pc EXCEPT ![self] = "us_1_ld"]
@@ -995,7 +1014,7 @@ us_d(self) == /\ pc[self] = "us_d"
                               cn_, old_mu_w, lt_, first, out_, rc_, hadw, ata, 
                               so_, havel, tw, allr, omw, fca, sorw, all, old_c, 
                               tws, alr, rmq, dl, cn, gen, old_cv, lt_c, rc_c, 
-                              so, out, ndl, old, wq, dw, k >>
+                              so, out, ndl, old, wq, dw, k, cdw, ck >>
 
 us_2_cas(self) == /\ pc[self] = "us_2_cas"
                   /\ IF word = old_u[self]
@@ -1028,7 +1047,7 @@ us_2_cas(self) == /\ pc[self] = "us_2_cas"
                                   out_, rc_, hadw, ata, so_, havel, tw, allr, 
                                   omw, fca, sorw, all, old_c, tws, alr, rmq, 
                                   dl, cn, gen, old_cv, lt_c, rc_c, so, out, 
-                                  ndl, old, wq, dw, k >>
+                                  ndl, old, wq, dw, k, cdw, ck >>
 
 us_3_cas(self) == /\ pc[self] = "us_3_cas"
                   /\ IF word = old_u[self]
@@ -1055,7 +1074,8 @@ us_3_cas(self) == /\ pc[self] = "us_3_cas"
                                   old_mu_w, lt_, first, out_, rc_, hadw, ata, 
                                   so_, havel, tw, allr, omw, fca, sorw, all, 
                                   old_c, tws, alr, rmq, dl, cn, gen, old_cv, 
-                                  lt_c, rc_c, so, out, ndl, old, wq, dw, k >>
+                                  lt_c, rc_c, so, out, ndl, old, wq, dw, k, 
+                                  cdw, ck >>
 
 us_pass_l(self) == /\ pc[self] = "us_pass_l"
                    /\ IF nwl[self] = <<>>
@@ -1079,7 +1099,8 @@ us_pass_l(self) == /\ pc[self] = "us_pass_l"
                                    old_mu_w, lt_, first, out_, rc_, hadw, ata, 
                                    so_, havel, tw, allr, omw, fca, sorw, all, 
                                    old_c, tws, alr, rmq, dl, cn, gen, old_cv, 
-                                   lt_c, rc_c, so, out, ndl, old, wq, dw, k >>
+                                   lt_c, rc_c, so, out, ndl, old, wq, dw, k, 
+                                   cdw, ck >>
 
 us_rel_l(self) == /\ pc[self] = "us_rel_l"
                   /\ IF tc[self]
@@ -1098,7 +1119,7 @@ us_rel_l(self) == /\ pc[self] = "us_rel_l"
                                   ata, so_, havel, tw, allr, omw, fca, sorw, 
                                   all, old_c, tws, alr, rmq, dl, cn, gen, 
                                   old_cv, lt_c, rc_c, so, out, ndl, old, wq, 
-                                  dw, k >>
+                                  dw, k, cdw, ck >>
 
 us_rs_ld(self) == /\ pc[self] = "us_rs_ld"
                   /\ old_u' = [old_u EXCEPT ![self] = word]
@@ -1115,7 +1136,8 @@ us_rs_ld(self) == /\ pc[self] = "us_rs_ld"
                                   old_mu_w, lt_, first, out_, rc_, hadw, ata, 
                                   so_, havel, tw, allr, omw, fca, sorw, all, 
                                   old_c, tws, alr, rmq, dl, cn, gen, old_cv, 
-                                  lt_c, rc_c, so, out, ndl, old, wq, dw, k >>
+                                  lt_c, rc_c, so, out, ndl, old, wq, dw, k, 
+                                  cdw, ck >>
 
 us_rs_cas(self) == /\ pc[self] = "us_rs_cas"
                    /\ IF word = old_u[self]
@@ -1136,7 +1158,7 @@ us_rs_cas(self) == /\ pc[self] = "us_rs_cas"
                                    ata, so_, havel, tw, allr, omw, fca, sorw, 
                                    all, old_c, tws, alr, rmq, dl, cn, gen, 
                                    old_cv, lt_c, rc_c, so, out, ndl, old, wq, 
-                                   dw, k >>
+                                   dw, k, cdw, ck >>
 
 us_scan_l(self) == /\ pc[self] = "us_scan_l"
                    /\ LET r == Scan(nwl[self], 1, <<>>, wty[self], sor[self], sc, wc, wl, data, tc[self]) IN
@@ -1161,7 +1183,7 @@ us_scan_l(self) == /\ pc[self] = "us_scan_l"
                                    out_, rc_, hadw, ata, so_, havel, tw, allr, 
                                    omw, fca, sorw, all, old_c, tws, alr, rmq, 
                                    dl, cn, gen, old_cv, lt_c, rc_c, so, out, 
-                                   ndl, old, wq, dw, k >>
+                                   ndl, old, wq, dw, k, cdw, ck >>
 
 us_rmq_l(self) == /\ pc[self] = "us_rmq_l"
                   /\ IF rmq_[self] = <<>>
@@ -1180,7 +1202,7 @@ us_rmq_l(self) == /\ pc[self] = "us_rmq_l"
                                   ata, so_, havel, tw, allr, omw, fca, sorw, 
                                   all, old_c, tws, alr, rmq, dl, cn, gen, 
                                   old_cv, lt_c, rc_c, so, out, ndl, old, wq, 
-                                  dw, k >>
+                                  dw, k, cdw, ck >>
 
 us_rm_ld(self) == /\ pc[self] = "us_rm_ld"
                   /\ TRUE
@@ -1198,7 +1220,7 @@ us_rm_ld(self) == /\ pc[self] = "us_rm_ld"
                                   ata, so_, havel, tw, allr, omw, fca, sorw, 
                                   all, old_c, tws, alr, rmq, dl, cn, gen, 
                                   old_cv, lt_c, rc_c, so, out, ndl, old, wq, 
-                                  dw, k >>
+                                  dw, k, cdw, ck >>
 
 us_rm_cas(self) == /\ pc[self] = "us_rm_cas"
                    /\ rmc' = [rmc EXCEPT ![Head(rmq_[self])] = rmc[Head(rmq_[self])] + 1]
@@ -1216,7 +1238,8 @@ us_rm_cas(self) == /\ pc[self] = "us_rm_cas"
                                    old_mu_w, lt_, first, out_, rc_, hadw, ata, 
                                    so_, havel, tw, allr, omw, fca, sorw, all, 
                                    old_c, tws, alr, rmq, dl, cn, gen, old_cv, 
-                                   lt_c, rc_c, so, out, ndl, old, wq, dw, k >>
+                                   lt_c, rc_c, so, out, ndl, old, wq, dw, k, 
+                                   cdw, ck >>
 
 us_after_l(self) == /\ pc[self] = "us_after_l"
                     /\ IF tc[self]
@@ -1235,7 +1258,7 @@ us_after_l(self) == /\ pc[self] = "us_after_l"
                                     first, out_, rc_, hadw, ata, so_, havel, 
                                     tw, allr, omw, fca, sorw, all, old_c, tws, 
                                     alr, rmq, dl, cn, gen, old_cv, lt_c, rc_c, 
-                                    so, out, ndl, old, wq, dw, k >>
+                                    so, out, ndl, old, wq, dw, k, cdw, ck >>
 
 us_ts_ld(self) == /\ pc[self] = "us_ts_ld"
                   /\ old_u' = [old_u EXCEPT ![self] = word]
@@ -1254,7 +1277,8 @@ us_ts_ld(self) == /\ pc[self] = "us_ts_ld"
                                   old_mu_w, lt_, first, out_, rc_, hadw, ata, 
                                   so_, havel, tw, allr, omw, fca, sorw, all, 
                                   old_c, tws, alr, rmq, dl, cn, gen, old_cv, 
-                                  lt_c, rc_c, so, out, ndl, old, wq, dw, k >>
+                                  lt_c, rc_c, so, out, ndl, old, wq, dw, k, 
+                                  cdw, ck >>
 
 us_ts_cas(self) == /\ pc[self] = "us_ts_cas"
                    /\ IF word = old_u[self]
@@ -1275,7 +1299,7 @@ us_ts_cas(self) == /\ pc[self] = "us_ts_cas"
                                    ata, so_, havel, tw, allr, omw, fca, sorw, 
                                    all, old_c, tws, alr, rmq, dl, cn, gen, 
                                    old_cv, lt_c, rc_c, so, out, ndl, old, wq, 
-                                   dw, k >>
+                                   dw, k, cdw, ck >>
 
 us_ts_d(self) == /\ pc[self] = "us_ts_d"
                  /\ pc' = [pc EXCEPT ![self] = "us_ts_ld"]
@@ -1291,7 +1315,8 @@ us_ts_d(self) == /\ pc[self] = "us_ts_d"
                                  old_mu_w, lt_, first, out_, rc_, hadw, ata, 
                                  so_, havel, tw, allr, omw, fca, sorw, all, 
                                  old_c, tws, alr, rmq, dl, cn, gen, old_cv, 
-                                 lt_c, rc_c, so, out, ndl, old, wq, dw, k >>
+                                 lt_c, rc_c, so, out, ndl, old, wq, dw, k, cdw, 
+                                 ck >>
 
 us_merge_l(self) == /\ pc[self] = "us_merge_l"
                     /\ sc' = Merge(sc, wc, Last(wtrs[self]), First(nwl[self]))
@@ -1311,7 +1336,8 @@ us_merge_l(self) == /\ pc[self] = "us_merge_l"
                                     lt_, first, out_, rc_, hadw, ata, so_, 
                                     havel, tw, allr, omw, fca, sorw, all, 
                                     old_c, tws, alr, rmq, dl, cn, gen, old_cv, 
-                                    lt_c, rc_c, so, out, ndl, old, wq, dw, k >>
+                                    lt_c, rc_c, so, out, ndl, old, wq, dw, k, 
+                                    cdw, ck >>
 
 us_4_ld(self) == /\ pc[self] = "us_4_ld"
                  /\ old_u' = [old_u EXCEPT ![self] = word]
@@ -1328,7 +1354,7 @@ us_4_ld(self) == /\ pc[self] = "us_4_ld"
                                  out_, rc_, hadw, ata, so_, havel, tw, allr, 
                                  omw, fca, sorw, all, old_c, tws, alr, rmq, dl, 
                                  cn, gen, old_cv, lt_c, rc_c, so, out, ndl, 
-                                 old, wq, dw, k >>
+                                 old, wq, dw, k, cdw, ck >>
 
 us_5_cas(self) == /\ pc[self] = "us_5_cas"
                   /\ IF word = old_u[self]
@@ -1366,7 +1392,7 @@ us_5_cas(self) == /\ pc[self] = "us_5_cas"
                                   out_, rc_, hadw, ata, so_, havel, tw, allr, 
                                   omw, fca, sorw, all, old_c, tws, alr, rmq, 
                                   dl, cn, gen, old_cv, lt_c, rc_c, so, out, 
-                                  ndl, old, wq, dw, k >>
+                                  ndl, old, wq, dw, k, cdw, ck >>
 
 us_6_st(self) == /\ pc[self] = "us_6_st"
                  /\ waiting' = [waiting EXCEPT ![Head(wake[self])] = 0]
@@ -1383,7 +1409,7 @@ us_6_st(self) == /\ pc[self] = "us_6_st"
                                  out_, rc_, hadw, ata, so_, havel, tw, allr, 
                                  omw, fca, sorw, all, old_c, tws, alr, rmq, dl, 
                                  cn, gen, old_cv, lt_c, rc_c, so, out, ndl, 
-                                 old, wq, dw, k >>
+                                 old, wq, dw, k, cdw, ck >>
 
 us_7_v(self) == /\ pc[self] = "us_7_v"
                 /\ sem' = [sem EXCEPT ![Head(wake[self])] = SetV(sem[Head(wake[self])])]
@@ -1415,7 +1441,8 @@ us_7_v(self) == /\ pc[self] = "us_7_v"
                                 old_mu_w, lt_, first, out_, rc_, hadw, ata, 
                                 so_, havel, tw, allr, omw, fca, sorw, all, 
                                 old_c, tws, alr, rmq, dl, cn, gen, old_cv, 
-                                lt_c, rc_c, so, out, ndl, old, wq, dw, k >>
+                                lt_c, rc_c, so, out, ndl, old, wq, dw, k, cdw, 
+                                ck >>
 
 unlock_slow(self) == us_1_ld(self) \/ us_d(self) \/ us_2_cas(self)
                         \/ us_3_cas(self) \/ us_pass_l(self)
@@ -1452,7 +1479,7 @@ lk_1_cas(self) == /\ pc[self] = "lk_1_cas"
                                   ata, so_, havel, tw, allr, omw, fca, sorw, 
                                   all, old_c, tws, alr, rmq, dl, cn, gen, 
                                   old_cv, lt_c, rc_c, so, out, ndl, old, wq, 
-                                  dw, k >>
+                                  dw, k, cdw, ck >>
 
 lk_2_ld(self) == /\ pc[self] = "lk_2_ld"
                  /\ IF AndZ(word, IF lt_m[self] = 1 THEN WZLO ELSE RZLO, IF lt_m[self] = 1 THEN WZHI ELSE RZHI) # 0
@@ -1499,7 +1526,8 @@ lk_2_ld(self) == /\ pc[self] = "lk_2_ld"
                                  old_mu_w, lt_, first, out_, rc_, hadw, ata, 
                                  so_, havel, tw, allr, omw, fca, sorw, all, 
                                  old_c, tws, alr, rmq, dl, cn, gen, old_cv, 
-                                 lt_c, rc_c, so, out, ndl, old, wq, dw, k >>
+                                 lt_c, rc_c, so, out, ndl, old, wq, dw, k, cdw, 
+                                 ck >>
 
 lk_3_cas(self) == /\ pc[self] = "lk_3_cas"
                   /\ IF word = old_m[self]
@@ -1552,7 +1580,8 @@ lk_3_cas(self) == /\ pc[self] = "lk_3_cas"
                                   old_mu_w, lt_, first, out_, rc_, hadw, ata, 
                                   so_, havel, tw, allr, omw, fca, sorw, all, 
                                   old_c, tws, alr, rmq, dl, cn, gen, old_cv, 
-                                  lt_c, rc_c, so, out, ndl, old, wq, dw, k >>
+                                  lt_c, rc_c, so, out, ndl, old, wq, dw, k, 
+                                  cdw, ck >>
 
 mu_lock(self) == lk_1_cas(self) \/ lk_2_ld(self) \/ lk_3_cas(self)
 
@@ -1580,7 +1609,7 @@ tl_1_cas(self) == /\ pc[self] = "tl_1_cas"
                                   ata, so_, havel, tw, allr, omw, fca, sorw, 
                                   all, old_c, tws, alr, rmq, dl, cn, gen, 
                                   old_cv, lt_c, rc_c, so, out, ndl, old, wq, 
-                                  dw, k >>
+                                  dw, k, cdw, ck >>
 
 tl_2_ld(self) == /\ pc[self] = "tl_2_ld"
                  /\ IF AndZ(word, IF lt_mu[self] = 1 THEN WZLO ELSE RZLO, IF lt_mu[self] = 1 THEN WZHI ELSE RZHI) # 0
@@ -1603,7 +1632,8 @@ tl_2_ld(self) == /\ pc[self] = "tl_2_ld"
                                  old_mu_w, lt_, first, out_, rc_, hadw, ata, 
                                  so_, havel, tw, allr, omw, fca, sorw, all, 
                                  old_c, tws, alr, rmq, dl, cn, gen, old_cv, 
-                                 lt_c, rc_c, so, out, ndl, old, wq, dw, k >>
+                                 lt_c, rc_c, so, out, ndl, old, wq, dw, k, cdw, 
+                                 ck >>
 
 tl_3_cas(self) == /\ pc[self] = "tl_3_cas"
                   /\ IF word = old_mu[self]
@@ -1632,7 +1662,7 @@ tl_3_cas(self) == /\ pc[self] = "tl_3_cas"
                                   ata, so_, havel, tw, allr, omw, fca, sorw, 
                                   all, old_c, tws, alr, rmq, dl, cn, gen, 
                                   old_cv, lt_c, rc_c, so, out, ndl, old, wq, 
-                                  dw, k >>
+                                  dw, k, cdw, ck >>
 
 mu_trylock(self) == tl_1_cas(self) \/ tl_2_ld(self) \/ tl_3_cas(self)
 
@@ -1658,7 +1688,7 @@ ul_1_cas(self) == /\ pc[self] = "ul_1_cas"
                                   out_, rc_, hadw, ata, so_, havel, tw, allr, 
                                   omw, fca, sorw, all, old_c, tws, alr, rmq, 
                                   dl, cn, gen, old_cv, lt_c, rc_c, so, out, 
-                                  ndl, old, wq, dw, k >>
+                                  ndl, old, wq, dw, k, cdw, ck >>
 
 ul_2_ld(self) == /\ pc[self] = "ul_2_ld"
                  /\ IF lt_mu_[self] = 1 /\ ~ww[self] /\ (word & (WAITING + DESIG)) = WAITING
@@ -1763,7 +1793,8 @@ ul_2_ld(self) == /\ pc[self] = "ul_2_ld"
                                  old_mu_w, lt_, first, out_, rc_, hadw, ata, 
                                  so_, havel, tw, allr, omw, fca, sorw, all, 
                                  old_c, tws, alr, rmq, dl, cn, gen, old_cv, 
-                                 lt_c, rc_c, so, out, ndl, old, wq, dw, k >>
+                                 lt_c, rc_c, so, out, ndl, old, wq, dw, k, cdw, 
+                                 ck >>
 
 ul_3_cas(self) == /\ pc[self] = "ul_3_cas"
                   /\ IF word = old_mu_[self]
@@ -1813,7 +1844,8 @@ ul_3_cas(self) == /\ pc[self] = "ul_3_cas"
                                   old_mu_w, lt_, first, out_, rc_, hadw, ata, 
                                   so_, havel, tw, allr, omw, fca, sorw, all, 
                                   old_c, tws, alr, rmq, dl, cn, gen, old_cv, 
-                                  lt_c, rc_c, so, out, ndl, old, wq, dw, k >>
+                                  lt_c, rc_c, so, out, ndl, old, wq, dw, k, 
+                                  cdw, ck >>
 
 mu_unlock(self) == ul_1_cas(self) \/ ul_2_ld(self) \/ ul_3_cas(self)
 
@@ -1842,7 +1874,8 @@ sw_1_r(self) == /\ pc[self] = "sw_1_r"
                                 cn_, old_mu_w, lt_, first, out_, rc_, hadw, 
                                 ata, so_, havel, tw, allr, omw, fca, sorw, all, 
                                 old_c, tws, alr, rmq, dl, cn, gen, old_cv, 
-                                lt_c, rc_c, so, out, ndl, old, wq, dw, k >>
+                                lt_c, rc_c, so, out, ndl, old, wq, dw, k, cdw, 
+                                ck >>
 
 sw_2_pd(self) == /\ pc[self] = "sw_2_pd"
                  /\ sem[W(self)] > 0 \/ Expired(sdl[self], now)
@@ -1868,7 +1901,7 @@ sw_2_pd(self) == /\ pc[self] = "sw_2_pd"
                                  ata, so_, havel, tw, allr, omw, fca, sorw, 
                                  all, old_c, tws, alr, rmq, dl, cn, gen, 
                                  old_cv, lt_c, rc_c, so, out, ndl, old, wq, dw, 
-                                 k >>
+                                 k, cdw, ck >>
 
 sem_wait(self) == sw_1_r(self) \/ sw_2_pd(self)
 
@@ -1891,7 +1924,7 @@ ta_1_ld(self) == /\ pc[self] = "ta_1_ld"
                                  first, out_, rc_, hadw, ata, so_, havel, tw, 
                                  allr, omw, fca, sorw, all, old_c, tws, alr, 
                                  rmq, dl, cn, gen, old_cv, lt_c, rc_c, so, out, 
-                                 ndl, old, wq, dw, k >>
+                                 ndl, old, wq, dw, k, cdw, ck >>
 
 ta_2_cas(self) == /\ pc[self] = "ta_2_cas"
                   /\ IF word = old_t[self]
@@ -1914,7 +1947,7 @@ ta_2_cas(self) == /\ pc[self] = "ta_2_cas"
                                   ata, so_, havel, tw, allr, omw, fca, sorw, 
                                   all, old_c, tws, alr, rmq, dl, cn, gen, 
                                   old_cv, lt_c, rc_c, so, out, ndl, old, wq, 
-                                  dw, k >>
+                                  dw, k, cdw, ck >>
 
 ta_3_cas(self) == /\ pc[self] = "ta_3_cas"
                   /\ IF word = old_t[self]
@@ -1935,7 +1968,7 @@ ta_3_cas(self) == /\ pc[self] = "ta_3_cas"
                                   ata, so_, havel, tw, allr, omw, fca, sorw, 
                                   all, old_c, tws, alr, rmq, dl, cn, gen, 
                                   old_cv, lt_c, rc_c, so, out, ndl, old, wq, 
-                                  dw, k >>
+                                  dw, k, cdw, ck >>
 
 ta_d(self) == /\ pc[self] = "ta_d"
               /\ pc' = [pc EXCEPT ![self] = "ta_1_ld"]
@@ -1950,7 +1983,7 @@ ta_d(self) == /\ pc[self] = "ta_d"
                               cn_, old_mu_w, lt_, first, out_, rc_, hadw, ata, 
                               so_, havel, tw, allr, omw, fca, sorw, all, old_c, 
                               tws, alr, rmq, dl, cn, gen, old_cv, lt_c, rc_c, 
-                              so, out, ndl, old, wq, dw, k >>
+                              so, out, ndl, old, wq, dw, k, cdw, ck >>
 
 ta_5_ld(self) == /\ pc[self] = "ta_5_ld"
                  /\ IF waiting[W(self)] = 0
@@ -1968,7 +2001,8 @@ ta_5_ld(self) == /\ pc[self] = "ta_5_ld"
                                  old_mu_w, lt_, first, out_, rc_, hadw, ata, 
                                  so_, havel, tw, allr, omw, fca, sorw, all, 
                                  old_c, tws, alr, rmq, dl, cn, gen, old_cv, 
-                                 lt_c, rc_c, so, out, ndl, old, wq, dw, k >>
+                                 lt_c, rc_c, so, out, ndl, old, wq, dw, k, cdw, 
+                                 ck >>
 
 ta_6_ld(self) == /\ pc[self] = "ta_6_ld"
                  /\ IF rc[self] # rmc[W(self)]
@@ -1990,7 +2024,7 @@ ta_6_ld(self) == /\ pc[self] = "ta_6_ld"
                                  out_, rc_, hadw, ata, so_, havel, tw, allr, 
                                  omw, fca, sorw, all, old_c, tws, alr, rmq, dl, 
                                  cn, gen, old_cv, lt_c, rc_c, so, out, ndl, 
-                                 old, wq, dw, k >>
+                                 old, wq, dw, k, cdw, ck >>
 
 ta_7_ld(self) == /\ pc[self] = "ta_7_ld"
                  /\ TRUE
@@ -2007,7 +2041,8 @@ ta_7_ld(self) == /\ pc[self] = "ta_7_ld"
                                  old_mu_w, lt_, first, out_, rc_, hadw, ata, 
                                  so_, havel, tw, allr, omw, fca, sorw, all, 
                                  old_c, tws, alr, rmq, dl, cn, gen, old_cv, 
-                                 lt_c, rc_c, so, out, ndl, old, wq, dw, k >>
+                                 lt_c, rc_c, so, out, ndl, old, wq, dw, k, cdw, 
+                                 ck >>
 
 ta_7_cas(self) == /\ pc[self] = "ta_7_cas"
                   /\ rmc' = [rmc EXCEPT ![W(self)] = rmc[W(self)] + 1]
@@ -2025,7 +2060,7 @@ ta_7_cas(self) == /\ pc[self] = "ta_7_cas"
                                   ata, so_, havel, tw, allr, omw, fca, sorw, 
                                   all, old_c, tws, alr, rmq, dl, cn, gen, 
                                   old_cv, lt_c, rc_c, so, out, ndl, old, wq, 
-                                  dw, k >>
+                                  dw, k, cdw, ck >>
 
 ta_8_st(self) == /\ pc[self] = "ta_8_st"
                  /\ waiting' = [waiting EXCEPT ![W(self)] = 0]
@@ -2042,7 +2077,7 @@ ta_8_st(self) == /\ pc[self] = "ta_8_st"
                                  out_, rc_, hadw, ata, so_, havel, tw, allr, 
                                  omw, fca, sorw, all, old_c, tws, alr, rmq, dl, 
                                  cn, gen, old_cv, lt_c, rc_c, so, out, ndl, 
-                                 old, wq, dw, k >>
+                                 old, wq, dw, k, cdw, ck >>
 
 ta_8b_st(self) == /\ pc[self] = "ta_8b_st"
                   /\ word' = old_t[self] + Add(lt[self])
@@ -2065,7 +2100,7 @@ ta_8b_st(self) == /\ pc[self] = "ta_8b_st"
                                   hadw, ata, so_, havel, tw, allr, omw, fca, 
                                   sorw, all, old_c, tws, alr, rmq, dl, cn, gen, 
                                   old_cv, lt_c, rc_c, so, out, ndl, old, wq, 
-                                  dw, k >>
+                                  dw, k, cdw, ck >>
 
 ta_9_st(self) == /\ pc[self] = "ta_9_st"
                  /\ word' = old_t[self]
@@ -2086,7 +2121,8 @@ ta_9_st(self) == /\ pc[self] = "ta_9_st"
                                  old_mu_w, lt_, first, out_, rc_, hadw, ata, 
                                  so_, havel, tw, allr, omw, fca, sorw, all, 
                                  old_c, tws, alr, rmq, dl, cn, gen, old_cv, 
-                                 lt_c, rc_c, so, out, ndl, old, wq, dw, k >>
+                                 lt_c, rc_c, so, out, ndl, old, wq, dw, k, cdw, 
+                                 ck >>
 
 try_acquire(self) == ta_1_ld(self) \/ ta_2_cas(self) \/ ta_3_cas(self)
                         \/ ta_d(self) \/ ta_5_ld(self) \/ ta_6_ld(self)
@@ -2136,7 +2172,7 @@ mw_1_ld(self) == /\ pc[self] = "mw_1_ld"
                                  old_mu_, sdl, scn, lt, rc, old_t, tw, allr, 
                                  omw, fca, sorw, all, old_c, tws, alr, rmq, dl, 
                                  cn, gen, old_cv, lt_c, rc_c, so, out, ndl, 
-                                 old, wq, dw, k >>
+                                 old, wq, dw, k, cdw, ck >>
 
 mw_2_st(self) == /\ pc[self] = "mw_2_st"
                  /\ waiting' = [waiting EXCEPT ![W(self)] = 1]
@@ -2156,7 +2192,7 @@ mw_2_st(self) == /\ pc[self] = "mw_2_st"
                                  hadw, ata, so_, havel, tw, allr, omw, fca, 
                                  sorw, all, old_c, tws, alr, rmq, dl, cn, gen, 
                                  old_cv, lt_c, rc_c, so, out, ndl, old, wq, dw, 
-                                 k >>
+                                 k, cdw, ck >>
 
 mw_3_ld(self) == /\ pc[self] = "mw_3_ld"
                  /\ rc_' = [rc_ EXCEPT ![self] = rmc[W(self)]]
@@ -2173,7 +2209,7 @@ mw_3_ld(self) == /\ pc[self] = "mw_3_ld"
                                  old_mu_w, lt_, first, out_, hadw, ata, so_, 
                                  havel, tw, allr, omw, fca, sorw, all, old_c, 
                                  tws, alr, rmq, dl, cn, gen, old_cv, lt_c, 
-                                 rc_c, so, out, ndl, old, wq, dw, k >>
+                                 rc_c, so, out, ndl, old, wq, dw, k, cdw, ck >>
 
 mw_4_ld(self) == /\ pc[self] = "mw_4_ld"
                  /\ old_mu_w' = [old_mu_w EXCEPT ![self] = word]
@@ -2192,7 +2228,7 @@ mw_4_ld(self) == /\ pc[self] = "mw_4_ld"
                                  first, out_, rc_, hadw, ata, so_, havel, tw, 
                                  allr, omw, fca, sorw, all, old_c, tws, alr, 
                                  rmq, dl, cn, gen, old_cv, lt_c, rc_c, so, out, 
-                                 ndl, old, wq, dw, k >>
+                                 ndl, old, wq, dw, k, cdw, ck >>
 
 mw_5_cas(self) == /\ pc[self] = "mw_5_cas"
                   /\ IF word = old_mu_w[self]
@@ -2222,7 +2258,7 @@ mw_5_cas(self) == /\ pc[self] = "mw_5_cas"
                                   cn_, old_mu_w, lt_, out_, rc_, ata, so_, 
                                   havel, tw, allr, omw, fca, sorw, all, old_c, 
                                   tws, alr, rmq, dl, cn, gen, old_cv, lt_c, 
-                                  rc_c, so, out, ndl, old, wq, dw, k >>
+                                  rc_c, so, out, ndl, old, wq, dw, k, cdw, ck >>
 
 mw_4_d(self) == /\ pc[self] = "mw_4_d"
                 /\ pc' = [pc EXCEPT ![self] = "mw_4_ld"]
@@ -2238,7 +2274,7 @@ mw_4_d(self) == /\ pc[self] = "mw_4_d"
                                 first, out_, rc_, hadw, ata, so_, havel, tw, 
                                 allr, omw, fca, sorw, all, old_c, tws, alr, 
                                 rmq, dl, cn, gen, old_cv, lt_c, rc_c, so, out, 
-                                ndl, old, wq, dw, k >>
+                                ndl, old, wq, dw, k, cdw, ck >>
 
 mw_6_ld(self) == /\ pc[self] = "mw_6_ld"
                  /\ old_mu_w' = [old_mu_w EXCEPT ![self] = word]
@@ -2256,7 +2292,7 @@ mw_6_ld(self) == /\ pc[self] = "mw_6_ld"
                                  first, out_, rc_, hadw, so_, havel, tw, allr, 
                                  omw, fca, sorw, all, old_c, tws, alr, rmq, dl, 
                                  cn, gen, old_cv, lt_c, rc_c, so, out, ndl, 
-                                 old, wq, dw, k >>
+                                 old, wq, dw, k, cdw, ck >>
 
 mw_7_cas(self) == /\ pc[self] = "mw_7_cas"
                   /\ IF word = old_mu_w[self]
@@ -2309,7 +2345,7 @@ mw_7_cas(self) == /\ pc[self] = "mw_7_cas"
                                   out_, rc_, hadw, ata, tw, allr, omw, fca, 
                                   sorw, all, old_c, tws, alr, rmq, dl, cn, gen, 
                                   old_cv, lt_c, rc_c, so, out, ndl, old, wq, 
-                                  dw, k >>
+                                  dw, k, cdw, ck >>
 
 mw_8_ld(self) == /\ pc[self] = "mw_8_ld"
                  /\ IF waiting[W(self)] = 0
@@ -2338,7 +2374,7 @@ mw_8_ld(self) == /\ pc[self] = "mw_8_ld"
                                  hadw, ata, so_, havel, tw, allr, omw, fca, 
                                  sorw, all, old_c, tws, alr, rmq, dl, cn, gen, 
                                  old_cv, lt_c, rc_c, so, out, ndl, old, wq, dw, 
-                                 k >>
+                                 k, cdw, ck >>
 
 mw_9b_l(self) == /\ pc[self] = "mw_9b_l"
                  /\ so_' = [so_ EXCEPT ![self] = sres[self]]
@@ -2357,7 +2393,7 @@ mw_9b_l(self) == /\ pc[self] = "mw_9b_l"
                                  old_mu_w, lt_, first, out_, rc_, hadw, ata, 
                                  havel, tw, allr, omw, fca, sorw, all, old_c, 
                                  tws, alr, rmq, dl, cn, gen, old_cv, lt_c, 
-                                 rc_c, so, out, ndl, old, wq, dw, k >>
+                                 rc_c, so, out, ndl, old, wq, dw, k, cdw, ck >>
 
 mw_10_ld(self) == /\ pc[self] = "mw_10_ld"
                   /\ IF waiting[W(self)] = 0
@@ -2376,7 +2412,7 @@ mw_10_ld(self) == /\ pc[self] = "mw_10_ld"
                                   ata, so_, havel, tw, allr, omw, fca, sorw, 
                                   all, old_c, tws, alr, rmq, dl, cn, gen, 
                                   old_cv, lt_c, rc_c, so, out, ndl, old, wq, 
-                                  dw, k >>
+                                  dw, k, cdw, ck >>
 
 mw_11_l(self) == /\ pc[self] = "mw_11_l"
                  /\ /\ lt' = [lt EXCEPT ![self] = lt_[self]]
@@ -2401,7 +2437,7 @@ mw_11_l(self) == /\ pc[self] = "mw_11_l"
                                  ata, so_, havel, tw, allr, omw, fca, sorw, 
                                  all, old_c, tws, alr, rmq, dl, cn, gen, 
                                  old_cv, lt_c, rc_c, so, out, ndl, old, wq, dw, 
-                                 k >>
+                                 k, cdw, ck >>
 
 mw_11b_l(self) == /\ pc[self] = "mw_11b_l"
                   /\ havel' = [havel EXCEPT ![self] = (sres[self] = 1)]
@@ -2422,7 +2458,7 @@ mw_11b_l(self) == /\ pc[self] = "mw_11b_l"
                                   cn_, old_mu_w, lt_, first, rc_, hadw, ata, 
                                   so_, tw, allr, omw, fca, sorw, all, old_c, 
                                   tws, alr, rmq, dl, cn, gen, old_cv, lt_c, 
-                                  rc_c, so, out, ndl, old, wq, dw, k >>
+                                  rc_c, so, out, ndl, old, wq, dw, k, cdw, ck >>
 
 mw_12_ld(self) == /\ pc[self] = "mw_12_ld"
                   /\ IF waiting[W(self)] # 0
@@ -2441,7 +2477,7 @@ mw_12_ld(self) == /\ pc[self] = "mw_12_ld"
                                   ata, so_, havel, tw, allr, omw, fca, sorw, 
                                   all, old_c, tws, alr, rmq, dl, cn, gen, 
                                   old_cv, lt_c, rc_c, so, out, ndl, old, wq, 
-                                  dw, k >>
+                                  dw, k, cdw, ck >>
 
 mw_12_d(self) == /\ pc[self] = "mw_12_d"
                  /\ pc' = [pc EXCEPT ![self] = "mw_8_ld"]
@@ -2457,7 +2493,8 @@ mw_12_d(self) == /\ pc[self] = "mw_12_d"
                                  old_mu_w, lt_, first, out_, rc_, hadw, ata, 
                                  so_, havel, tw, allr, omw, fca, sorw, all, 
                                  old_c, tws, alr, rmq, dl, cn, gen, old_cv, 
-                                 lt_c, rc_c, so, out, ndl, old, wq, dw, k >>
+                                 lt_c, rc_c, so, out, ndl, old, wq, dw, k, cdw, 
+                                 ck >>
 
 mw_13_l(self) == /\ pc[self] = "mw_13_l"
                  /\ IF ~havel[self]
@@ -2493,7 +2530,7 @@ mw_13_l(self) == /\ pc[self] = "mw_13_l"
                                  first, out_, rc_, hadw, ata, so_, havel, tw, 
                                  allr, omw, fca, sorw, all, old_c, tws, alr, 
                                  rmq, dl, cn, gen, old_cv, lt_c, rc_c, so, out, 
-                                 ndl, old, wq, dw, k >>
+                                 ndl, old, wq, dw, k, cdw, ck >>
 
 mw_14_l(self) == /\ pc[self] = "mw_14_l"
                  /\ IF out_[self] = 0 /\ ~((c[self] = 0) \/ CondTrue(c[self], data))
@@ -2526,7 +2563,7 @@ mw_14_l(self) == /\ pc[self] = "mw_14_l"
                                  lt_mu_, ww, old_mu_, sdl, scn, lt, rc, old_t, 
                                  tw, allr, omw, fca, sorw, all, old_c, tws, 
                                  alr, rmq, dl, cn, gen, old_cv, lt_c, rc_c, so, 
-                                 out, ndl, old, wq, dw, k >>
+                                 out, ndl, old, wq, dw, k, cdw, ck >>
 
 mu_wait(self) == mw_1_ld(self) \/ mw_2_st(self) \/ mw_3_ld(self)
                     \/ mw_4_ld(self) \/ mw_5_cas(self) \/ mw_4_d(self)
@@ -2551,7 +2588,7 @@ ww_0_l(self) == /\ pc[self] = "ww_0_l"
                                 first, out_, rc_, hadw, ata, so_, havel, tw, 
                                 allr, omw, fca, sorw, all, old_c, tws, alr, 
                                 rmq, dl, cn, gen, old_cv, lt_c, rc_c, so, out, 
-                                ndl, old, wq, dw, k >>
+                                ndl, old, wq, dw, k, cdw, ck >>
 
 ww_1_ld(self) == /\ pc[self] = "ww_1_ld"
                  /\ omw' = [omw EXCEPT ![self] = word]
@@ -2571,7 +2608,7 @@ ww_1_ld(self) == /\ pc[self] = "ww_1_ld"
                                  old_mu_w, lt_, first, out_, rc_, hadw, ata, 
                                  so_, havel, tw, allr, sorw, all, old_c, tws, 
                                  alr, rmq, dl, cn, gen, old_cv, lt_c, rc_c, so, 
-                                 out, ndl, old, wq, dw, k >>
+                                 out, ndl, old, wq, dw, k, cdw, ck >>
 
 ww_2_cas(self) == /\ pc[self] = "ww_2_cas"
                   /\ IF word = omw[self]
@@ -2595,7 +2632,8 @@ ww_2_cas(self) == /\ pc[self] = "ww_2_cas"
                                   c, dl_, cn_, old_mu_w, lt_, first, out_, rc_, 
                                   hadw, ata, so_, havel, allr, omw, fca, all, 
                                   old_c, tws, alr, rmq, dl, cn, gen, old_cv, 
-                                  lt_c, rc_c, so, out, ndl, old, wq, dw, k >>
+                                  lt_c, rc_c, so, out, ndl, old, wq, dw, k, 
+                                  cdw, ck >>
 
 ww_3_ld(self) == /\ pc[self] = "ww_3_ld"
                  /\ omw' = [omw EXCEPT ![self] = word]
@@ -2612,7 +2650,7 @@ ww_3_ld(self) == /\ pc[self] = "ww_3_ld"
                                  old_mu_w, lt_, first, out_, rc_, hadw, ata, 
                                  so_, havel, tw, allr, fca, sorw, all, old_c, 
                                  tws, alr, rmq, dl, cn, gen, old_cv, lt_c, 
-                                 rc_c, so, out, ndl, old, wq, dw, k >>
+                                 rc_c, so, out, ndl, old, wq, dw, k, cdw, ck >>
 
 ww_4_cas(self) == /\ pc[self] = "ww_4_cas"
                   /\ IF word = omw[self]
@@ -2633,7 +2671,7 @@ ww_4_cas(self) == /\ pc[self] = "ww_4_cas"
                                   ata, so_, havel, tw, allr, omw, fca, sorw, 
                                   all, old_c, tws, alr, rmq, dl, cn, gen, 
                                   old_cv, lt_c, rc_c, so, out, ndl, old, wq, 
-                                  dw, k >>
+                                  dw, k, cdw, ck >>
 
 ww_4b_l(self) == /\ pc[self] = "ww_4b_l"
                  /\ IF tw[self] = <<>>
@@ -2657,7 +2695,7 @@ ww_4b_l(self) == /\ pc[self] = "ww_4b_l"
                                  old_t, c, dl_, cn_, old_mu_w, lt_, first, 
                                  out_, rc_, hadw, ata, so_, havel, all, old_c, 
                                  tws, alr, rmq, dl, cn, gen, old_cv, lt_c, 
-                                 rc_c, so, out, ndl, old, wq, dw, k >>
+                                 rc_c, so, out, ndl, old, wq, dw, k, cdw, ck >>
 
 ww_5_st(self) == /\ pc[self] = "ww_5_st"
                  /\ IF IsMuCv(Head(tw[self]))
@@ -2678,7 +2716,7 @@ ww_5_st(self) == /\ pc[self] = "ww_5_st"
                                  out_, rc_, hadw, ata, so_, havel, tw, allr, 
                                  omw, fca, sorw, all, old_c, tws, alr, rmq, dl, 
                                  cn, gen, old_cv, lt_c, rc_c, so, out, ndl, 
-                                 old, wq, dw, k >>
+                                 old, wq, dw, k, cdw, ck >>
 
 ww_6_v(self) == /\ pc[self] = "ww_6_v"
                 /\ sem' = [sem EXCEPT ![SemOf(Head(tw[self]))] = SetV(sem[SemOf(Head(tw[self]))])]
@@ -2704,7 +2742,7 @@ ww_6_v(self) == /\ pc[self] = "ww_6_v"
                                 c, dl_, cn_, old_mu_w, lt_, first, out_, rc_, 
                                 hadw, ata, so_, havel, all, old_c, tws, alr, 
                                 rmq, dl, cn, gen, old_cv, lt_c, rc_c, so, out, 
-                                ndl, old, wq, dw, k >>
+                                ndl, old, wq, dw, k, cdw, ck >>
 
 wake_waiters(self) == ww_0_l(self) \/ ww_1_ld(self) \/ ww_2_cas(self)
                          \/ ww_3_ld(self) \/ ww_4_cas(self)
@@ -2732,7 +2770,7 @@ cs_1_ld(self) == /\ pc[self] = "cs_1_ld"
                                  old_t, c, dl_, cn_, old_mu_w, lt_, first, 
                                  out_, rc_, hadw, ata, so_, havel, tw, allr, 
                                  omw, fca, sorw, dl, cn, gen, old_cv, lt_c, 
-                                 rc_c, so, out, ndl, old, wq, dw, k >>
+                                 rc_c, so, out, ndl, old, wq, dw, k, cdw, ck >>
 
 cs_2_ld(self) == /\ pc[self] = "cs_2_ld"
                  /\ old_c' = [old_c EXCEPT ![self] = cvword]
@@ -2751,7 +2789,7 @@ cs_2_ld(self) == /\ pc[self] = "cs_2_ld"
                                  old_mu_w, lt_, first, out_, rc_, hadw, ata, 
                                  so_, havel, tw, allr, omw, fca, sorw, all, 
                                  tws, alr, rmq, dl, cn, gen, old_cv, lt_c, 
-                                 rc_c, so, out, ndl, old, wq, dw, k >>
+                                 rc_c, so, out, ndl, old, wq, dw, k, cdw, ck >>
 
 cs_3_cas(self) == /\ pc[self] = "cs_3_cas"
                   /\ IF cvword = old_c[self]
@@ -2782,7 +2820,7 @@ cs_3_cas(self) == /\ pc[self] = "cs_3_cas"
                                   first, out_, rc_, hadw, ata, so_, havel, tw, 
                                   allr, omw, fca, sorw, all, old_c, rmq, dl, 
                                   cn, gen, old_cv, lt_c, rc_c, so, out, ndl, 
-                                  old, wq, dw, k >>
+                                  old, wq, dw, k, cdw, ck >>
 
 cs_3b_l(self) == /\ pc[self] = "cs_3b_l"
                  /\ rmq' = [rmq EXCEPT ![self] = IF CvFix THEN tws[self] ELSE SelectSeq(tws[self], IsMuCv)]
@@ -2801,7 +2839,7 @@ cs_3b_l(self) == /\ pc[self] = "cs_3b_l"
                                  out_, rc_, hadw, ata, so_, havel, tw, allr, 
                                  omw, fca, sorw, all, old_c, alr, dl, cn, gen, 
                                  old_cv, lt_c, rc_c, so, out, ndl, old, wq, dw, 
-                                 k >>
+                                 k, cdw, ck >>
 
 cs_2_d(self) == /\ pc[self] = "cs_2_d"
                 /\ pc' = [pc EXCEPT ![self] = "cs_2_ld"]
@@ -2817,7 +2855,7 @@ cs_2_d(self) == /\ pc[self] = "cs_2_d"
                                 first, out_, rc_, hadw, ata, so_, havel, tw, 
                                 allr, omw, fca, sorw, all, old_c, tws, alr, 
                                 rmq, dl, cn, gen, old_cv, lt_c, rc_c, so, out, 
-                                ndl, old, wq, dw, k >>
+                                ndl, old, wq, dw, k, cdw, ck >>
 
 cs_rmq_l(self) == /\ pc[self] = "cs_rmq_l"
                   /\ IF rmq[self] = <<>>
@@ -2838,7 +2876,7 @@ cs_rmq_l(self) == /\ pc[self] = "cs_rmq_l"
                                   ata, so_, havel, tw, allr, omw, fca, sorw, 
                                   all, old_c, tws, alr, rmq, dl, cn, gen, 
                                   old_cv, lt_c, rc_c, so, out, ndl, old, wq, 
-                                  dw, k >>
+                                  dw, k, cdw, ck >>
 
 cs_rm_ld(self) == /\ pc[self] = "cs_rm_ld"
                   /\ TRUE
@@ -2856,7 +2894,7 @@ cs_rm_ld(self) == /\ pc[self] = "cs_rm_ld"
                                   ata, so_, havel, tw, allr, omw, fca, sorw, 
                                   all, old_c, tws, alr, rmq, dl, cn, gen, 
                                   old_cv, lt_c, rc_c, so, out, ndl, old, wq, 
-                                  dw, k >>
+                                  dw, k, cdw, ck >>
 
 cs_rm_cas(self) == /\ pc[self] = "cs_rm_cas"
                    /\ rmc' = [rmc EXCEPT ![Head(rmq[self])] = rmc[Head(rmq[self])] + 1]
@@ -2874,7 +2912,8 @@ cs_rm_cas(self) == /\ pc[self] = "cs_rm_cas"
                                    cn_, old_mu_w, lt_, first, out_, rc_, hadw, 
                                    ata, so_, havel, tw, allr, omw, fca, sorw, 
                                    all, old_c, tws, alr, dl, cn, gen, old_cv, 
-                                   lt_c, rc_c, so, out, ndl, old, wq, dw, k >>
+                                   lt_c, rc_c, so, out, ndl, old, wq, dw, k, 
+                                   cdw, ck >>
 
 cs_f_st(self) == /\ pc[self] = "cs_f_st"
                  /\ nww' = [nww EXCEPT ![-Head(rmq[self])] = 0]
@@ -2891,7 +2930,7 @@ cs_f_st(self) == /\ pc[self] = "cs_f_st"
                                  out_, rc_, hadw, ata, so_, havel, tw, allr, 
                                  omw, fca, sorw, all, old_c, tws, alr, rmq, dl, 
                                  cn, gen, old_cv, lt_c, rc_c, so, out, ndl, 
-                                 old, wq, dw, k >>
+                                 old, wq, dw, k, cdw, ck >>
 
 cs_f_v(self) == /\ pc[self] = "cs_f_v"
                 /\ sem' = [sem EXCEPT ![SemOf(Head(rmq[self]))] = SetV(sem[SemOf(Head(rmq[self]))])]
@@ -2909,7 +2948,7 @@ cs_f_v(self) == /\ pc[self] = "cs_f_v"
                                 rc_, hadw, ata, so_, havel, tw, allr, omw, fca, 
                                 sorw, all, old_c, tws, alr, dl, cn, gen, 
                                 old_cv, lt_c, rc_c, so, out, ndl, old, wq, dw, 
-                                k >>
+                                k, cdw, ck >>
 
 cs_4_st(self) == /\ pc[self] = "cs_4_st"
                  /\ cvword' = IF all[self] THEN 0 ELSE (IF cvq = <<>> THEN Clr(old_c[self], CVNE) ELSE old_c[self])
@@ -2951,7 +2990,8 @@ cs_4_st(self) == /\ pc[self] = "cs_4_st"
                                  lt_mu_, ww, old_mu_, sdl, scn, lt, rc, old_t, 
                                  c, dl_, cn_, old_mu_w, lt_, first, out_, rc_, 
                                  hadw, ata, so_, havel, dl, cn, gen, old_cv, 
-                                 lt_c, rc_c, so, out, ndl, old, wq, dw, k >>
+                                 lt_c, rc_c, so, out, ndl, old, wq, dw, k, cdw, 
+                                 ck >>
 
 cv_wake(self) == cs_1_ld(self) \/ cs_2_ld(self) \/ cs_3_cas(self)
                     \/ cs_3b_l(self) \/ cs_2_d(self) \/ cs_rmq_l(self)
@@ -2980,7 +3020,7 @@ cw_1_st(self) == /\ pc[self] = "cw_1_st"
                                  old_mu_w, lt_, first, out_, rc_, hadw, ata, 
                                  so_, havel, tw, allr, omw, fca, sorw, all, 
                                  old_c, tws, alr, rmq, dl, cn, gen, old_cv, 
-                                 rc_c, so, out, ndl, old, wq, dw, k >>
+                                 rc_c, so, out, ndl, old, wq, dw, k, cdw, ck >>
 
 cw_2_ld(self) == /\ pc[self] = "cw_2_ld"
                  /\ lt_c' = [lt_c EXCEPT ![self] = IF (word & WLOCK) # 0 THEN 1 ELSE 2]
@@ -2999,7 +3039,7 @@ cw_2_ld(self) == /\ pc[self] = "cw_2_ld"
                                  out_, rc_, hadw, ata, so_, havel, tw, allr, 
                                  omw, fca, sorw, all, old_c, tws, alr, rmq, dl, 
                                  cn, gen, old_cv, rc_c, so, out, ndl, old, wq, 
-                                 dw, k >>
+                                 dw, k, cdw, ck >>
 
 cw_3_ld(self) == /\ pc[self] = "cw_3_ld"
                  /\ old_cv' = [old_cv EXCEPT ![self] = cvword]
@@ -3018,7 +3058,7 @@ cw_3_ld(self) == /\ pc[self] = "cw_3_ld"
                                  old_mu_w, lt_, first, out_, rc_, hadw, ata, 
                                  so_, havel, tw, allr, omw, fca, sorw, all, 
                                  old_c, tws, alr, rmq, dl, cn, gen, lt_c, rc_c, 
-                                 so, out, ndl, old, wq, dw, k >>
+                                 so, out, ndl, old, wq, dw, k, cdw, ck >>
 
 cw_4_cas(self) == /\ pc[self] = "cw_4_cas"
                   /\ IF cvword = old_cv[self]
@@ -3040,7 +3080,7 @@ cw_4_cas(self) == /\ pc[self] = "cw_4_cas"
                                   hadw, ata, so_, havel, tw, allr, omw, fca, 
                                   sorw, all, old_c, tws, alr, rmq, dl, cn, gen, 
                                   old_cv, lt_c, rc_c, so, out, ndl, old, wq, 
-                                  dw, k >>
+                                  dw, k, cdw, ck >>
 
 cw_3_d(self) == /\ pc[self] = "cw_3_d"
                 /\ pc' = [pc EXCEPT ![self] = "cw_3_ld"]
@@ -3056,7 +3096,7 @@ cw_3_d(self) == /\ pc[self] = "cw_3_d"
                                 first, out_, rc_, hadw, ata, so_, havel, tw, 
                                 allr, omw, fca, sorw, all, old_c, tws, alr, 
                                 rmq, dl, cn, gen, old_cv, lt_c, rc_c, so, out, 
-                                ndl, old, wq, dw, k >>
+                                ndl, old, wq, dw, k, cdw, ck >>
 
 cw_5_ld(self) == /\ pc[self] = "cw_5_ld"
                  /\ rc_c' = [rc_c EXCEPT ![self] = rmc[W(self)]]
@@ -3073,7 +3113,7 @@ cw_5_ld(self) == /\ pc[self] = "cw_5_ld"
                                  old_mu_w, lt_, first, out_, rc_, hadw, ata, 
                                  so_, havel, tw, allr, omw, fca, sorw, all, 
                                  old_c, tws, alr, rmq, dl, cn, gen, old_cv, 
-                                 lt_c, so, out, ndl, old, wq, dw, k >>
+                                 lt_c, so, out, ndl, old, wq, dw, k, cdw, ck >>
 
 cw_6_st(self) == /\ pc[self] = "cw_6_st"
                  /\ cvword' = old_cv[self] | CVNE
@@ -3101,7 +3141,7 @@ cw_6_st(self) == /\ pc[self] = "cw_6_st"
                                  old_mu_w, lt_, first, out_, rc_, hadw, ata, 
                                  so_, havel, tw, allr, omw, fca, sorw, all, 
                                  old_c, tws, alr, rmq, dl, cn, gen, old_cv, 
-                                 lt_c, rc_c, ndl, old, wq, dw, k >>
+                                 lt_c, rc_c, ndl, old, wq, dw, k, cdw, ck >>
 
 cw_7_ld(self) == /\ pc[self] = "cw_7_ld"
                  /\ IF waiting[W(self)] = 0
@@ -3130,7 +3170,7 @@ cw_7_ld(self) == /\ pc[self] = "cw_7_ld"
                                  hadw, ata, so_, havel, tw, allr, omw, fca, 
                                  sorw, all, old_c, tws, alr, rmq, dl, cn, gen, 
                                  old_cv, lt_c, rc_c, so, out, ndl, old, wq, dw, 
-                                 k >>
+                                 k, cdw, ck >>
 
 cw_8b_l(self) == /\ pc[self] = "cw_8b_l"
                  /\ so' = [so EXCEPT ![self] = sres[self]]
@@ -3149,7 +3189,7 @@ cw_8b_l(self) == /\ pc[self] = "cw_8b_l"
                                  old_mu_w, lt_, first, out_, rc_, hadw, ata, 
                                  so_, havel, tw, allr, omw, fca, sorw, all, 
                                  old_c, tws, alr, rmq, dl, cn, gen, old_cv, 
-                                 lt_c, rc_c, out, ndl, old, wq, dw, k >>
+                                 lt_c, rc_c, out, ndl, old, wq, dw, k, cdw, ck >>
 
 cw_9_ld(self) == /\ pc[self] = "cw_9_ld"
                  /\ IF waiting[W(self)] = 0
@@ -3167,7 +3207,8 @@ cw_9_ld(self) == /\ pc[self] = "cw_9_ld"
                                  old_mu_w, lt_, first, out_, rc_, hadw, ata, 
                                  so_, havel, tw, allr, omw, fca, sorw, all, 
                                  old_c, tws, alr, rmq, dl, cn, gen, old_cv, 
-                                 lt_c, rc_c, so, out, ndl, old, wq, dw, k >>
+                                 lt_c, rc_c, so, out, ndl, old, wq, dw, k, cdw, 
+                                 ck >>
 
 cw_10_ld(self) == /\ pc[self] = "cw_10_ld"
                   /\ old_cv' = [old_cv EXCEPT ![self] = cvword]
@@ -3186,7 +3227,7 @@ cw_10_ld(self) == /\ pc[self] = "cw_10_ld"
                                   cn_, old_mu_w, lt_, first, out_, rc_, hadw, 
                                   ata, so_, havel, tw, allr, omw, fca, sorw, 
                                   all, old_c, tws, alr, rmq, dl, cn, gen, lt_c, 
-                                  rc_c, so, out, ndl, old, wq, dw, k >>
+                                  rc_c, so, out, ndl, old, wq, dw, k, cdw, ck >>
 
 cw_11_cas(self) == /\ pc[self] = "cw_11_cas"
                    /\ IF cvword = old_cv[self]
@@ -3207,7 +3248,7 @@ cw_11_cas(self) == /\ pc[self] = "cw_11_cas"
                                    ata, so_, havel, tw, allr, omw, fca, sorw, 
                                    all, old_c, tws, alr, rmq, dl, cn, gen, 
                                    old_cv, lt_c, rc_c, so, out, ndl, old, wq, 
-                                   dw, k >>
+                                   dw, k, cdw, ck >>
 
 cw_10_d(self) == /\ pc[self] = "cw_10_d"
                  /\ pc' = [pc EXCEPT ![self] = "cw_10_ld"]
@@ -3223,7 +3264,8 @@ cw_10_d(self) == /\ pc[self] = "cw_10_d"
                                  old_mu_w, lt_, first, out_, rc_, hadw, ata, 
                                  so_, havel, tw, allr, omw, fca, sorw, all, 
                                  old_c, tws, alr, rmq, dl, cn, gen, old_cv, 
-                                 lt_c, rc_c, so, out, ndl, old, wq, dw, k >>
+                                 lt_c, rc_c, so, out, ndl, old, wq, dw, k, cdw, 
+                                 ck >>
 
 cw_12_ld(self) == /\ pc[self] = "cw_12_ld"
                   /\ IF waiting[W(self)] = 0
@@ -3242,7 +3284,7 @@ cw_12_ld(self) == /\ pc[self] = "cw_12_ld"
                                   ata, so_, havel, tw, allr, omw, fca, sorw, 
                                   all, old_c, tws, alr, rmq, dl, cn, gen, 
                                   old_cv, lt_c, rc_c, so, out, ndl, old, wq, 
-                                  dw, k >>
+                                  dw, k, cdw, ck >>
 
 cw_13_ld(self) == /\ pc[self] = "cw_13_ld"
                   /\ IF rc_c[self] # rmc[W(self)]
@@ -3263,7 +3305,8 @@ cw_13_ld(self) == /\ pc[self] = "cw_13_ld"
                                   cn_, old_mu_w, lt_, first, out_, rc_, hadw, 
                                   ata, so_, havel, tw, allr, omw, fca, sorw, 
                                   all, old_c, tws, alr, rmq, dl, cn, gen, 
-                                  old_cv, lt_c, rc_c, so, ndl, old, wq, dw, k >>
+                                  old_cv, lt_c, rc_c, so, ndl, old, wq, dw, k, 
+                                  cdw, ck >>
 
 cw_14_ld(self) == /\ pc[self] = "cw_14_ld"
                   /\ TRUE
@@ -3281,7 +3324,7 @@ cw_14_ld(self) == /\ pc[self] = "cw_14_ld"
                                   ata, so_, havel, tw, allr, omw, fca, sorw, 
                                   all, old_c, tws, alr, rmq, dl, cn, gen, 
                                   old_cv, lt_c, rc_c, so, out, ndl, old, wq, 
-                                  dw, k >>
+                                  dw, k, cdw, ck >>
 
 cw_14_cas(self) == /\ pc[self] = "cw_14_cas"
                    /\ rmc' = [rmc EXCEPT ![W(self)] = rmc[W(self)] + 1]
@@ -3299,7 +3342,8 @@ cw_14_cas(self) == /\ pc[self] = "cw_14_cas"
                                    cn_, old_mu_w, lt_, first, out_, rc_, hadw, 
                                    ata, so_, havel, tw, allr, omw, fca, sorw, 
                                    all, old_c, tws, alr, rmq, dl, cn, gen, 
-                                   lt_c, rc_c, so, out, ndl, old, wq, dw, k >>
+                                   lt_c, rc_c, so, out, ndl, old, wq, dw, k, 
+                                   cdw, ck >>
 
 cw_14_st(self) == /\ pc[self] = "cw_14_st"
                   /\ waiting' = [waiting EXCEPT ![W(self)] = 0]
@@ -3316,7 +3360,7 @@ cw_14_st(self) == /\ pc[self] = "cw_14_st"
                                   first, out_, rc_, hadw, ata, so_, havel, tw, 
                                   allr, omw, fca, sorw, all, old_c, tws, alr, 
                                   rmq, dl, cn, gen, old_cv, lt_c, rc_c, so, 
-                                  out, ndl, old, wq, dw, k >>
+                                  out, ndl, old, wq, dw, k, cdw, ck >>
 
 cw_15_st(self) == /\ pc[self] = "cw_15_st"
                   /\ cvword' = old_cv[self]
@@ -3333,7 +3377,7 @@ cw_15_st(self) == /\ pc[self] = "cw_15_st"
                                   first, out_, rc_, hadw, ata, so_, havel, tw, 
                                   allr, omw, fca, sorw, all, old_c, tws, alr, 
                                   rmq, dl, cn, gen, old_cv, lt_c, rc_c, so, 
-                                  out, ndl, old, wq, dw, k >>
+                                  out, ndl, old, wq, dw, k, cdw, ck >>
 
 cw_16_ld(self) == /\ pc[self] = "cw_16_ld"
                   /\ IF waiting[W(self)] # 0
@@ -3352,7 +3396,7 @@ cw_16_ld(self) == /\ pc[self] = "cw_16_ld"
                                   ata, so_, havel, tw, allr, omw, fca, sorw, 
                                   all, old_c, tws, alr, rmq, dl, cn, gen, 
                                   old_cv, lt_c, rc_c, so, out, ndl, old, wq, 
-                                  dw, k >>
+                                  dw, k, cdw, ck >>
 
 cw_16_d(self) == /\ pc[self] = "cw_16_d"
                  /\ pc' = [pc EXCEPT ![self] = "cw_7_ld"]
@@ -3368,7 +3412,8 @@ cw_16_d(self) == /\ pc[self] = "cw_16_d"
                                  old_mu_w, lt_, first, out_, rc_, hadw, ata, 
                                  so_, havel, tw, allr, omw, fca, sorw, all, 
                                  old_c, tws, alr, rmq, dl, cn, gen, old_cv, 
-                                 lt_c, rc_c, so, out, ndl, old, wq, dw, k >>
+                                 lt_c, rc_c, so, out, ndl, old, wq, dw, k, cdw, 
+                                 ck >>
 
 cw_17_l(self) == /\ pc[self] = "cw_17_l"
                  /\ IF ~gen[self] /\ ~cvmu[W(self)]
@@ -3412,7 +3457,7 @@ cw_17_l(self) == /\ pc[self] = "cw_17_l"
                                  out_, rc_, hadw, ata, so_, havel, tw, allr, 
                                  omw, fca, sorw, all, old_c, tws, alr, rmq, dl, 
                                  cn, gen, old_cv, lt_c, rc_c, so, out, ndl, 
-                                 old, wq, dw, k >>
+                                 old, wq, dw, k, cdw, ck >>
 
 cw_18_l(self) == /\ pc[self] = "cw_18_l"
                  /\ ret' = [ret EXCEPT ![self] = out[self]]
@@ -3437,7 +3482,7 @@ cw_18_l(self) == /\ pc[self] = "cw_18_l"
                                  c, dl_, cn_, old_mu_w, lt_, first, out_, rc_, 
                                  hadw, ata, so_, havel, tw, allr, omw, fca, 
                                  sorw, all, old_c, tws, alr, rmq, ndl, old, wq, 
-                                 dw, k >>
+                                 dw, k, cdw, ck >>
 
 cv_wait(self) == cw_1_st(self) \/ cw_2_ld(self) \/ cw_3_ld(self)
                     \/ cw_4_cas(self) \/ cw_3_d(self) \/ cw_5_ld(self)
@@ -3466,7 +3511,7 @@ wn_1_st(self) == /\ pc[self] = "wn_1_st"
                                  hadw, ata, so_, havel, tw, allr, omw, fca, 
                                  sorw, all, old_c, tws, alr, rmq, dl, cn, gen, 
                                  old_cv, lt_c, rc_c, so, out, ndl, old, wq, dw, 
-                                 k >>
+                                 k, cdw, ck >>
 
 wn_2_ld(self) == /\ pc[self] = "wn_2_ld"
                  /\ old' = [old EXCEPT ![self] = cvword]
@@ -3485,7 +3530,7 @@ wn_2_ld(self) == /\ pc[self] = "wn_2_ld"
                                  old_mu_w, lt_, first, out_, rc_, hadw, ata, 
                                  so_, havel, tw, allr, omw, fca, sorw, all, 
                                  old_c, tws, alr, rmq, dl, cn, gen, old_cv, 
-                                 lt_c, rc_c, so, out, ndl, wq, dw, k >>
+                                 lt_c, rc_c, so, out, ndl, wq, dw, k, cdw, ck >>
 
 wn_3_cas(self) == /\ pc[self] = "wn_3_cas"
                   /\ IF cvword = old[self]
@@ -3507,7 +3552,7 @@ wn_3_cas(self) == /\ pc[self] = "wn_3_cas"
                                   hadw, ata, so_, havel, tw, allr, omw, fca, 
                                   sorw, all, old_c, tws, alr, rmq, dl, cn, gen, 
                                   old_cv, lt_c, rc_c, so, out, ndl, old, wq, 
-                                  dw, k >>
+                                  dw, k, cdw, ck >>
 
 wn_2_d(self) == /\ pc[self] = "wn_2_d"
                 /\ pc' = [pc EXCEPT ![self] = "wn_2_ld"]
@@ -3523,7 +3568,7 @@ wn_2_d(self) == /\ pc[self] = "wn_2_d"
                                 first, out_, rc_, hadw, ata, so_, havel, tw, 
                                 allr, omw, fca, sorw, all, old_c, tws, alr, 
                                 rmq, dl, cn, gen, old_cv, lt_c, rc_c, so, out, 
-                                ndl, old, wq, dw, k >>
+                                ndl, old, wq, dw, k, cdw, ck >>
 
 wn_4_st(self) == /\ pc[self] = "wn_4_st"
                  /\ nww' = [nww EXCEPT ![self] = 1]
@@ -3540,7 +3585,7 @@ wn_4_st(self) == /\ pc[self] = "wn_4_st"
                                  out_, rc_, hadw, ata, so_, havel, tw, allr, 
                                  omw, fca, sorw, all, old_c, tws, alr, rmq, dl, 
                                  cn, gen, old_cv, lt_c, rc_c, so, out, ndl, 
-                                 old, wq, dw, k >>
+                                 old, wq, dw, k, cdw, ck >>
 
 wn_5_st(self) == /\ pc[self] = "wn_5_st"
                  /\ cvword' = old[self] | CVNE
@@ -3566,7 +3611,8 @@ wn_5_st(self) == /\ pc[self] = "wn_5_st"
                                  old_mu_w, lt_, first, out_, rc_, hadw, ata, 
                                  so_, havel, tw, allr, omw, fca, sorw, all, 
                                  old_c, tws, alr, rmq, dl, cn, gen, old_cv, 
-                                 lt_c, rc_c, so, out, ndl, old, wq, dw, k >>
+                                 lt_c, rc_c, so, out, ndl, old, wq, dw, k, cdw, 
+                                 ck >>
 
 wn_6_ld(self) == /\ pc[self] = "wn_6_ld"
                  /\ IF nww[self] = 0
@@ -3584,7 +3630,8 @@ wn_6_ld(self) == /\ pc[self] = "wn_6_ld"
                                  old_mu_w, lt_, first, out_, rc_, hadw, ata, 
                                  so_, havel, tw, allr, omw, fca, sorw, all, 
                                  old_c, tws, alr, rmq, dl, cn, gen, old_cv, 
-                                 lt_c, rc_c, so, out, ndl, old, wq, dw, k >>
+                                 lt_c, rc_c, so, out, ndl, old, wq, dw, k, cdw, 
+                                 ck >>
 
 wn_7_pd(self) == /\ pc[self] = "wn_7_pd"
                  /\ sem[W(self)] > 0 \/ Expired(ndl[self], now)
@@ -3605,7 +3652,7 @@ wn_7_pd(self) == /\ pc[self] = "wn_7_pd"
                                  out_, rc_, hadw, ata, so_, havel, tw, allr, 
                                  omw, fca, sorw, all, old_c, tws, alr, rmq, dl, 
                                  cn, gen, old_cv, lt_c, rc_c, so, out, ndl, 
-                                 old, wq, dw, k >>
+                                 old, wq, dw, k, cdw, ck >>
 
 wn_8_ld(self) == /\ pc[self] = "wn_8_ld"
                  /\ old' = [old EXCEPT ![self] = cvword]
@@ -3624,7 +3671,7 @@ wn_8_ld(self) == /\ pc[self] = "wn_8_ld"
                                  old_mu_w, lt_, first, out_, rc_, hadw, ata, 
                                  so_, havel, tw, allr, omw, fca, sorw, all, 
                                  old_c, tws, alr, rmq, dl, cn, gen, old_cv, 
-                                 lt_c, rc_c, so, out, ndl, wq, dw, k >>
+                                 lt_c, rc_c, so, out, ndl, wq, dw, k, cdw, ck >>
 
 wn_9_cas(self) == /\ pc[self] = "wn_9_cas"
                   /\ IF cvword = old[self]
@@ -3644,7 +3691,7 @@ wn_9_cas(self) == /\ pc[self] = "wn_9_cas"
                                   first, out_, rc_, hadw, ata, so_, havel, tw, 
                                   allr, omw, fca, sorw, all, old_c, tws, alr, 
                                   rmq, dl, cn, gen, old_cv, lt_c, rc_c, so, 
-                                  out, ndl, old, wq, dw, k >>
+                                  out, ndl, old, wq, dw, k, cdw, ck >>
 
 wn_8_d(self) == /\ pc[self] = "wn_8_d"
                 /\ pc' = [pc EXCEPT ![self] = "wn_8_ld"]
@@ -3660,7 +3707,7 @@ wn_8_d(self) == /\ pc[self] = "wn_8_d"
                                 first, out_, rc_, hadw, ata, so_, havel, tw, 
                                 allr, omw, fca, sorw, all, old_c, tws, alr, 
                                 rmq, dl, cn, gen, old_cv, lt_c, rc_c, so, out, 
-                                ndl, old, wq, dw, k >>
+                                ndl, old, wq, dw, k, cdw, ck >>
 
 wn_10_ld(self) == /\ pc[self] = "wn_10_ld"
                   /\ IF nww[self] = 0
@@ -3683,7 +3730,7 @@ wn_10_ld(self) == /\ pc[self] = "wn_10_ld"
                                   first, out_, rc_, hadw, ata, so_, havel, tw, 
                                   allr, omw, fca, sorw, all, old_c, tws, alr, 
                                   rmq, dl, cn, gen, old_cv, lt_c, rc_c, so, 
-                                  out, ndl, old, dw, k >>
+                                  out, ndl, old, dw, k, cdw, ck >>
 
 wn_11_st(self) == /\ pc[self] = "wn_11_st"
                   /\ nww' = [nww EXCEPT ![self] = 0]
@@ -3701,7 +3748,7 @@ wn_11_st(self) == /\ pc[self] = "wn_11_st"
                                   ata, so_, havel, tw, allr, omw, fca, sorw, 
                                   all, old_c, tws, alr, rmq, dl, cn, gen, 
                                   old_cv, lt_c, rc_c, so, out, ndl, old, wq, 
-                                  dw, k >>
+                                  dw, k, cdw, ck >>
 
 wn_12_st(self) == /\ pc[self] = "wn_12_st"
                   /\ cvword' = (IF cvq = <<>> THEN Clr(old[self], CVNE) ELSE old[self])
@@ -3725,7 +3772,7 @@ wn_12_st(self) == /\ pc[self] = "wn_12_st"
                                   ata, so_, havel, tw, allr, omw, fca, sorw, 
                                   all, old_c, tws, alr, rmq, dl, cn, gen, 
                                   old_cv, lt_c, rc_c, so, out, ndl, old, wq, 
-                                  dw, k >>
+                                  dw, k, cdw, ck >>
 
 wn_13_l(self) == /\ pc[self] = "wn_13_l"
                  /\ ret' = [ret EXCEPT ![self] = IF wq[self] THEN 1 ELSE 0]
@@ -3746,7 +3793,7 @@ wn_13_l(self) == /\ pc[self] = "wn_13_l"
                                  c, dl_, cn_, old_mu_w, lt_, first, out_, rc_, 
                                  hadw, ata, so_, havel, tw, allr, omw, fca, 
                                  sorw, all, old_c, tws, alr, rmq, dl, cn, gen, 
-                                 old_cv, lt_c, rc_c, so, out, dw, k >>
+                                 old_cv, lt_c, rc_c, so, out, dw, k, cdw, ck >>
 
 wait_n(self) == wn_1_st(self) \/ wn_2_ld(self) \/ wn_3_cas(self)
                    \/ wn_2_d(self) \/ wn_4_st(self) \/ wn_5_st(self)
@@ -3774,7 +3821,7 @@ db_1_ld(self) == /\ pc[self] = "db_1_ld"
                                  out_, rc_, hadw, ata, so_, havel, tw, allr, 
                                  omw, fca, sorw, all, old_c, tws, alr, rmq, dl, 
                                  cn, gen, old_cv, lt_c, rc_c, so, out, ndl, 
-                                 old, wq >>
+                                 old, wq, cdw, ck >>
 
 db_2_ld(self) == /\ pc[self] = "db_2_ld"
                  /\ dw' = [dw EXCEPT ![self] = word]
@@ -3793,7 +3840,7 @@ db_2_ld(self) == /\ pc[self] = "db_2_ld"
                                  old_mu_w, lt_, first, out_, rc_, hadw, ata, 
                                  so_, havel, tw, allr, omw, fca, sorw, all, 
                                  old_c, tws, alr, rmq, dl, cn, gen, old_cv, 
-                                 lt_c, rc_c, so, out, ndl, old, wq, k >>
+                                 lt_c, rc_c, so, out, ndl, old, wq, k, cdw, ck >>
 
 db_3_cas(self) == /\ pc[self] = "db_3_cas"
                   /\ IF word = dw[self]
@@ -3815,7 +3862,7 @@ db_3_cas(self) == /\ pc[self] = "db_3_cas"
                                   ata, so_, havel, tw, allr, omw, fca, sorw, 
                                   all, old_c, tws, alr, rmq, dl, cn, gen, 
                                   old_cv, lt_c, rc_c, so, out, ndl, old, wq, 
-                                  dw >>
+                                  dw, cdw, ck >>
 
 db_d(self) == /\ pc[self] = "db_d"
               /\ pc' = [pc EXCEPT ![self] = "db_2_ld"]
@@ -3830,7 +3877,7 @@ db_d(self) == /\ pc[self] = "db_d"
                               cn_, old_mu_w, lt_, first, out_, rc_, hadw, ata, 
                               so_, havel, tw, allr, omw, fca, sorw, all, old_c, 
                               tws, alr, rmq, dl, cn, gen, old_cv, lt_c, rc_c, 
-                              so, out, ndl, old, wq, dw, k >>
+                              so, out, ndl, old, wq, dw, k, cdw, ck >>
 
 db_w_l(self) == /\ pc[self] = "db_w_l"
                 /\ IF k[self] = 0
@@ -3848,7 +3895,7 @@ db_w_l(self) == /\ pc[self] = "db_w_l"
                                 first, out_, rc_, hadw, ata, so_, havel, tw, 
                                 allr, omw, fca, sorw, all, old_c, tws, alr, 
                                 rmq, dl, cn, gen, old_cv, lt_c, rc_c, so, out, 
-                                ndl, old, wq, dw, k >>
+                                ndl, old, wq, dw, k, cdw, ck >>
 
 db_w1_ld(self) == /\ pc[self] = "db_w1_ld"
                   /\ TRUE
@@ -3866,7 +3913,7 @@ db_w1_ld(self) == /\ pc[self] = "db_w1_ld"
                                   ata, so_, havel, tw, allr, omw, fca, sorw, 
                                   all, old_c, tws, alr, rmq, dl, cn, gen, 
                                   old_cv, lt_c, rc_c, so, out, ndl, old, wq, 
-                                  dw, k >>
+                                  dw, k, cdw, ck >>
 
 db_w2_ld(self) == /\ pc[self] = "db_w2_ld"
                   /\ k' = [k EXCEPT ![self] = k[self] - 1]
@@ -3884,7 +3931,7 @@ db_w2_ld(self) == /\ pc[self] = "db_w2_ld"
                                   ata, so_, havel, tw, allr, omw, fca, sorw, 
                                   all, old_c, tws, alr, rmq, dl, cn, gen, 
                                   old_cv, lt_c, rc_c, so, out, ndl, old, wq, 
-                                  dw >>
+                                  dw, cdw, ck >>
 
 db_rel_l(self) == /\ pc[self] = "db_rel_l"
                   /\ IF DbgFixed
@@ -3903,7 +3950,7 @@ db_rel_l(self) == /\ pc[self] = "db_rel_l"
                                   ata, so_, havel, tw, allr, omw, fca, sorw, 
                                   all, old_c, tws, alr, rmq, dl, cn, gen, 
                                   old_cv, lt_c, rc_c, so, out, ndl, old, wq, 
-                                  dw, k >>
+                                  dw, k, cdw, ck >>
 
 db_4_st(self) == /\ pc[self] = "db_4_st"
                  /\ word' = dw[self]
@@ -3923,7 +3970,7 @@ db_4_st(self) == /\ pc[self] = "db_4_st"
                                  out_, rc_, hadw, ata, so_, havel, tw, allr, 
                                  omw, fca, sorw, all, old_c, tws, alr, rmq, dl, 
                                  cn, gen, old_cv, lt_c, rc_c, so, out, ndl, 
-                                 old, wq >>
+                                 old, wq, cdw, ck >>
 
 db_5_ld(self) == /\ pc[self] = "db_5_ld"
                  /\ dw' = [dw EXCEPT ![self] = word]
@@ -3940,7 +3987,7 @@ db_5_ld(self) == /\ pc[self] = "db_5_ld"
                                  old_mu_w, lt_, first, out_, rc_, hadw, ata, 
                                  so_, havel, tw, allr, omw, fca, sorw, all, 
                                  old_c, tws, alr, rmq, dl, cn, gen, old_cv, 
-                                 lt_c, rc_c, so, out, ndl, old, wq, k >>
+                                 lt_c, rc_c, so, out, ndl, old, wq, k, cdw, ck >>
 
 db_6_cas(self) == /\ pc[self] = "db_6_cas"
                   /\ IF word = dw[self]
@@ -3963,12 +4010,167 @@ db_6_cas(self) == /\ pc[self] = "db_6_cas"
                                   old_mu_w, lt_, first, out_, rc_, hadw, ata, 
                                   so_, havel, tw, allr, omw, fca, sorw, all, 
                                   old_c, tws, alr, rmq, dl, cn, gen, old_cv, 
-                                  lt_c, rc_c, so, out, ndl, old, wq >>
+                                  lt_c, rc_c, so, out, ndl, old, wq, cdw, ck >>
 
 debug_state(self) == db_1_ld(self) \/ db_2_ld(self) \/ db_3_cas(self)
                         \/ db_d(self) \/ db_w_l(self) \/ db_w1_ld(self)
                         \/ db_w2_ld(self) \/ db_rel_l(self)
                         \/ db_4_st(self) \/ db_5_ld(self) \/ db_6_cas(self)
+
+dc_1_ld(self) == /\ pc[self] = "dc_1_ld"
+                 /\ IF (cvword & CVNE) = 0
+                       THEN /\ pc' = [pc EXCEPT ![self] = Head(stack[self]).pc]
+                            /\ cdw' = [cdw EXCEPT ![self] = Head(stack[self]).cdw]
+                            /\ ck' = [ck EXCEPT ![self] = Head(stack[self]).ck]
+                            /\ stack' = [stack EXCEPT ![self] = Tail(stack[self])]
+                       ELSE /\ pc' = [pc EXCEPT ![self] = "dc_2_ld"]
+                            /\ UNCHANGED << stack, cdw, ck >>
+                 /\ UNCHANGED << word, queue, cvword, cvq, waiting, rmc, cvmu, 
+                                 wl, wc, sc, nww, nwsem, sem, data, now, note, 
+                                 nreg, held, ret, sres, picked, sleeps, inlock, 
+                                 ip, mw, pool, nalloc, nq, muFreed, refs, 
+                                 nwalive, taint3, lt_l, clear, old_, zlo, zhi, 
+                                 wcnt, lw, lt_u, old_u, tc, nwl, wtrs, wake, 
+                                 wty, sor, cor, rmq_, late, lt_m, old_m, lt_mu, 
+                                 old_mu, lt_mu_, ww, old_mu_, sdl, scn, lt, rc, 
+                                 old_t, c, dl_, cn_, old_mu_w, lt_, first, 
+                                 out_, rc_, hadw, ata, so_, havel, tw, allr, 
+                                 omw, fca, sorw, all, old_c, tws, alr, rmq, dl, 
+                                 cn, gen, old_cv, lt_c, rc_c, so, out, ndl, 
+                                 old, wq, dw, k >>
+
+dc_2_ld(self) == /\ pc[self] = "dc_2_ld"
+                 /\ cdw' = [cdw EXCEPT ![self] = cvword]
+                 /\ IF (cdw'[self] & CVSPIN) # 0
+                       THEN /\ pc' = [pc EXCEPT ![self] = "dc_d"]
+                       ELSE /\ pc' = [pc EXCEPT ![self] = "dc_3_cas"]
+                 /\ UNCHANGED << word, queue, cvword, cvq, waiting, rmc, cvmu, 
+                                 wl, wc, sc, nww, nwsem, sem, data, now, note, 
+                                 nreg, held, ret, sres, picked, sleeps, inlock, 
+                                 ip, mw, pool, nalloc, nq, muFreed, refs, 
+                                 nwalive, taint3, stack, lt_l, clear, old_, 
+                                 zlo, zhi, wcnt, lw, lt_u, old_u, tc, nwl, 
+                                 wtrs, wake, wty, sor, cor, rmq_, late, lt_m, 
+                                 old_m, lt_mu, old_mu, lt_mu_, ww, old_mu_, 
+                                 sdl, scn, lt, rc, old_t, c, dl_, cn_, 
+                                 old_mu_w, lt_, first, out_, rc_, hadw, ata, 
+                                 so_, havel, tw, allr, omw, fca, sorw, all, 
+                                 old_c, tws, alr, rmq, dl, cn, gen, old_cv, 
+                                 lt_c, rc_c, so, out, ndl, old, wq, dw, k, ck >>
+
+dc_3_cas(self) == /\ pc[self] = "dc_3_cas"
+                  /\ IF cvword = cdw[self]
+                        THEN /\ cvword' = cdw[self] | CVSPIN
+                             /\ ck' = [ck EXCEPT ![self] = Len(cvq)]
+                             /\ pc' = [pc EXCEPT ![self] = "dc_w_l"]
+                        ELSE /\ pc' = [pc EXCEPT ![self] = "dc_d"]
+                             /\ UNCHANGED << cvword, ck >>
+                  /\ UNCHANGED << word, queue, cvq, waiting, rmc, cvmu, wl, wc, 
+                                  sc, nww, nwsem, sem, data, now, note, nreg, 
+                                  held, ret, sres, picked, sleeps, inlock, ip, 
+                                  mw, pool, nalloc, nq, muFreed, refs, nwalive, 
+                                  taint3, stack, lt_l, clear, old_, zlo, zhi, 
+                                  wcnt, lw, lt_u, old_u, tc, nwl, wtrs, wake, 
+                                  wty, sor, cor, rmq_, late, lt_m, old_m, 
+                                  lt_mu, old_mu, lt_mu_, ww, old_mu_, sdl, scn, 
+                                  lt, rc, old_t, c, dl_, cn_, old_mu_w, lt_, 
+                                  first, out_, rc_, hadw, ata, so_, havel, tw, 
+                                  allr, omw, fca, sorw, all, old_c, tws, alr, 
+                                  rmq, dl, cn, gen, old_cv, lt_c, rc_c, so, 
+                                  out, ndl, old, wq, dw, k, cdw >>
+
+dc_d(self) == /\ pc[self] = "dc_d"
+              /\ pc' = [pc EXCEPT ![self] = "dc_2_ld"]
+              /\ UNCHANGED << word, queue, cvword, cvq, waiting, rmc, cvmu, wl, 
+                              wc, sc, nww, nwsem, sem, data, now, note, nreg, 
+                              held, ret, sres, picked, sleeps, inlock, ip, mw, 
+                              pool, nalloc, nq, muFreed, refs, nwalive, taint3, 
+                              stack, lt_l, clear, old_, zlo, zhi, wcnt, lw, 
+                              lt_u, old_u, tc, nwl, wtrs, wake, wty, sor, cor, 
+                              rmq_, late, lt_m, old_m, lt_mu, old_mu, lt_mu_, 
+                              ww, old_mu_, sdl, scn, lt, rc, old_t, c, dl_, 
+                              cn_, old_mu_w, lt_, first, out_, rc_, hadw, ata, 
+                              so_, havel, tw, allr, omw, fca, sorw, all, old_c, 
+                              tws, alr, rmq, dl, cn, gen, old_cv, lt_c, rc_c, 
+                              so, out, ndl, old, wq, dw, k, cdw, ck >>
+
+dc_w_l(self) == /\ pc[self] = "dc_w_l"
+                /\ IF ck[self] = 0
+                      THEN /\ pc' = [pc EXCEPT ![self] = "dc_4_st"]
+                      ELSE /\ pc' = [pc EXCEPT ![self] = "dc_w1_ld"]
+                /\ UNCHANGED << word, queue, cvword, cvq, waiting, rmc, cvmu, 
+                                wl, wc, sc, nww, nwsem, sem, data, now, note, 
+                                nreg, held, ret, sres, picked, sleeps, inlock, 
+                                ip, mw, pool, nalloc, nq, muFreed, refs, 
+                                nwalive, taint3, stack, lt_l, clear, old_, zlo, 
+                                zhi, wcnt, lw, lt_u, old_u, tc, nwl, wtrs, 
+                                wake, wty, sor, cor, rmq_, late, lt_m, old_m, 
+                                lt_mu, old_mu, lt_mu_, ww, old_mu_, sdl, scn, 
+                                lt, rc, old_t, c, dl_, cn_, old_mu_w, lt_, 
+                                first, out_, rc_, hadw, ata, so_, havel, tw, 
+                                allr, omw, fca, sorw, all, old_c, tws, alr, 
+                                rmq, dl, cn, gen, old_cv, lt_c, rc_c, so, out, 
+                                ndl, old, wq, dw, k, cdw, ck >>
+
+dc_w1_ld(self) == /\ pc[self] = "dc_w1_ld"
+                  /\ TRUE
+                  /\ pc' = [pc EXCEPT ![self] = "dc_w2_ld"]
+                  /\ UNCHANGED << word, queue, cvword, cvq, waiting, rmc, cvmu, 
+                                  wl, wc, sc, nww, nwsem, sem, data, now, note, 
+                                  nreg, held, ret, sres, picked, sleeps, 
+                                  inlock, ip, mw, pool, nalloc, nq, muFreed, 
+                                  refs, nwalive, taint3, stack, lt_l, clear, 
+                                  old_, zlo, zhi, wcnt, lw, lt_u, old_u, tc, 
+                                  nwl, wtrs, wake, wty, sor, cor, rmq_, late, 
+                                  lt_m, old_m, lt_mu, old_mu, lt_mu_, ww, 
+                                  old_mu_, sdl, scn, lt, rc, old_t, c, dl_, 
+                                  cn_, old_mu_w, lt_, first, out_, rc_, hadw, 
+                                  ata, so_, havel, tw, allr, omw, fca, sorw, 
+                                  all, old_c, tws, alr, rmq, dl, cn, gen, 
+                                  old_cv, lt_c, rc_c, so, out, ndl, old, wq, 
+                                  dw, k, cdw, ck >>
+
+dc_w2_ld(self) == /\ pc[self] = "dc_w2_ld"
+                  /\ ck' = [ck EXCEPT ![self] = ck[self] - 1]
+                  /\ pc' = [pc EXCEPT ![self] = "dc_w_l"]
+                  /\ UNCHANGED << word, queue, cvword, cvq, waiting, rmc, cvmu, 
+                                  wl, wc, sc, nww, nwsem, sem, data, now, note, 
+                                  nreg, held, ret, sres, picked, sleeps, 
+                                  inlock, ip, mw, pool, nalloc, nq, muFreed, 
+                                  refs, nwalive, taint3, stack, lt_l, clear, 
+                                  old_, zlo, zhi, wcnt, lw, lt_u, old_u, tc, 
+                                  nwl, wtrs, wake, wty, sor, cor, rmq_, late, 
+                                  lt_m, old_m, lt_mu, old_mu, lt_mu_, ww, 
+                                  old_mu_, sdl, scn, lt, rc, old_t, c, dl_, 
+                                  cn_, old_mu_w, lt_, first, out_, rc_, hadw, 
+                                  ata, so_, havel, tw, allr, omw, fca, sorw, 
+                                  all, old_c, tws, alr, rmq, dl, cn, gen, 
+                                  old_cv, lt_c, rc_c, so, out, ndl, old, wq, 
+                                  dw, k, cdw >>
+
+dc_4_st(self) == /\ pc[self] = "dc_4_st"
+                 /\ cvword' = cdw[self]
+                 /\ pc' = [pc EXCEPT ![self] = Head(stack[self]).pc]
+                 /\ cdw' = [cdw EXCEPT ![self] = Head(stack[self]).cdw]
+                 /\ ck' = [ck EXCEPT ![self] = Head(stack[self]).ck]
+                 /\ stack' = [stack EXCEPT ![self] = Tail(stack[self])]
+                 /\ UNCHANGED << word, queue, cvq, waiting, rmc, cvmu, wl, wc, 
+                                 sc, nww, nwsem, sem, data, now, note, nreg, 
+                                 held, ret, sres, picked, sleeps, inlock, ip, 
+                                 mw, pool, nalloc, nq, muFreed, refs, nwalive, 
+                                 taint3, lt_l, clear, old_, zlo, zhi, wcnt, lw, 
+                                 lt_u, old_u, tc, nwl, wtrs, wake, wty, sor, 
+                                 cor, rmq_, late, lt_m, old_m, lt_mu, old_mu, 
+                                 lt_mu_, ww, old_mu_, sdl, scn, lt, rc, old_t, 
+                                 c, dl_, cn_, old_mu_w, lt_, first, out_, rc_, 
+                                 hadw, ata, so_, havel, tw, allr, omw, fca, 
+                                 sorw, all, old_c, tws, alr, rmq, dl, cn, gen, 
+                                 old_cv, lt_c, rc_c, so, out, ndl, old, wq, dw, 
+                                 k >>
+
+debug_cv(self) == dc_1_ld(self) \/ dc_2_ld(self) \/ dc_3_cas(self)
+                     \/ dc_d(self) \/ dc_w_l(self) \/ dc_w1_ld(self)
+                     \/ dc_w2_ld(self) \/ dc_4_st(self)
 
 c0(self) == /\ pc[self] = "c0"
             /\ IF ip[self] > Len(Prog[self]) /\ self \notin Loopers
@@ -3985,7 +4187,7 @@ c0(self) == /\ pc[self] = "c0"
                                        old_mu_w, lt_, first, out_, rc_, hadw, 
                                        ata, so_, havel, all, old_c, tws, alr, 
                                        rmq, dl, cn, gen, old_cv, lt_c, rc_c, 
-                                       so, out, ndl, old, wq, dw, k >>
+                                       so, out, ndl, old, wq, dw, k, cdw, ck >>
                   ELSE /\ IF ip[self] > Len(Prog[self])
                              THEN /\ ip' = [ip EXCEPT ![self] = 1]
                                   /\ pc' = [pc EXCEPT ![self] = "c0"]
@@ -3999,7 +4201,7 @@ c0(self) == /\ pc[self] = "c0"
                                                   so_, havel, all, old_c, tws, 
                                                   alr, rmq, dl, cn, gen, 
                                                   old_cv, lt_c, rc_c, so, out, 
-                                                  ndl, old, wq, dw, k >>
+                                                  ndl, old, wq, dw, k, cdw, ck >>
                              ELSE /\ IF CurOp(self).op = "lock"
                                         THEN /\ ip' = [ip EXCEPT ![self] = ip[self] + 1]
                                              /\ sleeps' = [sleeps EXCEPT ![self] = 0]
@@ -4028,7 +4230,7 @@ c0(self) == /\ pc[self] = "c0"
                                                              old_cv, lt_c, 
                                                              rc_c, so, out, 
                                                              ndl, old, wq, dw, 
-                                                             k >>
+                                                             k, cdw, ck >>
                                         ELSE /\ IF CurOp(self).op = "trylock"
                                                    THEN /\ ip' = [ip EXCEPT ![self] = ip[self] + 1]
                                                         /\ /\ lt_mu' = [lt_mu EXCEPT ![self] = CurOp(self).lt]
@@ -4079,7 +4281,8 @@ c0(self) == /\ pc[self] = "c0"
                                                                         ndl, 
                                                                         old, 
                                                                         wq, dw, 
-                                                                        k >>
+                                                                        k, cdw, 
+                                                                        ck >>
                                                    ELSE /\ IF CurOp(self).op = "unlock"
                                                               THEN /\ ip' = [ip EXCEPT ![self] = ip[self] + 1]
                                                                    /\ held' = [held EXCEPT ![self] = 0]
@@ -4132,7 +4335,9 @@ c0(self) == /\ pc[self] = "c0"
                                                                                    old, 
                                                                                    wq, 
                                                                                    dw, 
-                                                                                   k >>
+                                                                                   k, 
+                                                                                   cdw, 
+                                                                                   ck >>
                                                               ELSE /\ IF CurOp(self).op = "unlockww"
                                                                          THEN /\ ip' = [ip EXCEPT ![self] = ip[self] + 1]
                                                                               /\ held' = [held EXCEPT ![self] = 0]
@@ -4185,7 +4390,9 @@ c0(self) == /\ pc[self] = "c0"
                                                                                               old, 
                                                                                               wq, 
                                                                                               dw, 
-                                                                                              k >>
+                                                                                              k, 
+                                                                                              cdw, 
+                                                                                              ck >>
                                                                          ELSE /\ IF CurOp(self).op = "get"
                                                                                     THEN /\ ip' = [ip EXCEPT ![self] = ip[self] + 1]
                                                                                          /\ pc' = [pc EXCEPT ![self] = "c0"]
@@ -4229,7 +4436,9 @@ c0(self) == /\ pc[self] = "c0"
                                                                                                          old, 
                                                                                                          wq, 
                                                                                                          dw, 
-                                                                                                         k >>
+                                                                                                         k, 
+                                                                                                         cdw, 
+                                                                                                         ck >>
                                                                                     ELSE /\ IF CurOp(self).op = "gate"
                                                                                                THEN /\ GateOK(CurOp(self).x)
                                                                                                     /\ ip' = [ip EXCEPT ![self] = ip[self] + 1]
@@ -4274,7 +4483,9 @@ c0(self) == /\ pc[self] = "c0"
                                                                                                                     old, 
                                                                                                                     wq, 
                                                                                                                     dw, 
-                                                                                                                    k >>
+                                                                                                                    k, 
+                                                                                                                    cdw, 
+                                                                                                                    ck >>
                                                                                                ELSE /\ IF CurOp(self).op = "set"
                                                                                                           THEN /\ ip' = [ip EXCEPT ![self] = ip[self] + 1]
                                                                                                                /\ data' = [data EXCEPT ![CurOp(self).v] = CurOp(self).x]
@@ -4318,7 +4529,9 @@ c0(self) == /\ pc[self] = "c0"
                                                                                                                                old, 
                                                                                                                                wq, 
                                                                                                                                dw, 
-                                                                                                                               k >>
+                                                                                                                               k, 
+                                                                                                                               cdw, 
+                                                                                                                               ck >>
                                                                                                           ELSE /\ IF CurOp(self).op = "skipunless"
                                                                                                                      THEN /\ ip' = [ip EXCEPT ![self] = IF ret[self] # 1 THEN ip[self] + 1 + CurOp(self).skip ELSE ip[self] + 1]
                                                                                                                           /\ pc' = [pc EXCEPT ![self] = "c0"]
@@ -4361,7 +4574,9 @@ c0(self) == /\ pc[self] = "c0"
                                                                                                                                           old, 
                                                                                                                                           wq, 
                                                                                                                                           dw, 
-                                                                                                                                          k >>
+                                                                                                                                          k, 
+                                                                                                                                          cdw, 
+                                                                                                                                          ck >>
                                                                                                                      ELSE /\ IF CurOp(self).op = "muwait"
                                                                                                                                 THEN /\ ip' = [ip EXCEPT ![self] = ip[self] + 1]
                                                                                                                                      /\ /\ c' = [c EXCEPT ![self] = CurOp(self).c]
@@ -4418,7 +4633,9 @@ c0(self) == /\ pc[self] = "c0"
                                                                                                                                                      old, 
                                                                                                                                                      wq, 
                                                                                                                                                      dw, 
-                                                                                                                                                     k >>
+                                                                                                                                                     k, 
+                                                                                                                                                     cdw, 
+                                                                                                                                                     ck >>
                                                                                                                                 ELSE /\ IF CurOp(self).op = "cvwait"
                                                                                                                                            THEN /\ ip' = [ip EXCEPT ![self] = ip[self] + 1]
                                                                                                                                                 /\ IF mw[self] = 0
@@ -4468,7 +4685,9 @@ c0(self) == /\ pc[self] = "c0"
                                                                                                                                                                 old, 
                                                                                                                                                                 wq, 
                                                                                                                                                                 dw, 
-                                                                                                                                                                k >>
+                                                                                                                                                                k, 
+                                                                                                                                                                cdw, 
+                                                                                                                                                                ck >>
                                                                                                                                            ELSE /\ IF CurOp(self).op = "cvloop"
                                                                                                                                                       THEN /\ IF data[CurOp(self).v] = 0 /\ ret[self] \notin {ETIMEDOUT, ECANCELED}
                                                                                                                                                                  THEN /\ IF mw[self] = 0
@@ -4534,7 +4753,9 @@ c0(self) == /\ pc[self] = "c0"
                                                                                                                                                                            old, 
                                                                                                                                                                            wq, 
                                                                                                                                                                            dw, 
-                                                                                                                                                                           k >>
+                                                                                                                                                                           k, 
+                                                                                                                                                                           cdw, 
+                                                                                                                                                                           ck >>
                                                                                                                                                       ELSE /\ IF CurOp(self).op = "waitn"
                                                                                                                                                                  THEN /\ ip' = [ip EXCEPT ![self] = ip[self] + 1]
                                                                                                                                                                       /\ IF mw[self] = 0
@@ -4571,7 +4792,9 @@ c0(self) == /\ pc[self] = "c0"
                                                                                                                                                                                       alr, 
                                                                                                                                                                                       rmq, 
                                                                                                                                                                                       dw, 
-                                                                                                                                                                                      k >>
+                                                                                                                                                                                      k, 
+                                                                                                                                                                                      cdw, 
+                                                                                                                                                                                      ck >>
                                                                                                                                                                  ELSE /\ IF CurOp(self).op = "waitnloop"
                                                                                                                                                                             THEN /\ IF data[CurOp(self).v] = 0 /\ ret[self] # 1
                                                                                                                                                                                        THEN /\ IF mw[self] = 0
@@ -4619,7 +4842,9 @@ c0(self) == /\ pc[self] = "c0"
                                                                                                                                                                                                  alr, 
                                                                                                                                                                                                  rmq, 
                                                                                                                                                                                                  dw, 
-                                                                                                                                                                                                 k >>
+                                                                                                                                                                                                 k, 
+                                                                                                                                                                                                 cdw, 
+                                                                                                                                                                                                 ck >>
                                                                                                                                                                             ELSE /\ IF CurOp(self).op = "signal"
                                                                                                                                                                                        THEN /\ ip' = [ip EXCEPT ![self] = ip[self] + 1]
                                                                                                                                                                                             /\ /\ all' = [all EXCEPT ![self] = FALSE]
@@ -4643,7 +4868,9 @@ c0(self) == /\ pc[self] = "c0"
                                                                                                                                                                                                             muFreed, 
                                                                                                                                                                                                             refs, 
                                                                                                                                                                                                             dw, 
-                                                                                                                                                                                                            k >>
+                                                                                                                                                                                                            k, 
+                                                                                                                                                                                                            cdw, 
+                                                                                                                                                                                                            ck >>
                                                                                                                                                                                        ELSE /\ IF CurOp(self).op = "broadcast"
                                                                                                                                                                                                   THEN /\ ip' = [ip EXCEPT ![self] = ip[self] + 1]
                                                                                                                                                                                                        /\ /\ all' = [all EXCEPT ![self] = TRUE]
@@ -4667,7 +4894,9 @@ c0(self) == /\ pc[self] = "c0"
                                                                                                                                                                                                                        muFreed, 
                                                                                                                                                                                                                        refs, 
                                                                                                                                                                                                                        dw, 
-                                                                                                                                                                                                                       k >>
+                                                                                                                                                                                                                       k, 
+                                                                                                                                                                                                                       cdw, 
+                                                                                                                                                                                                                       ck >>
                                                                                                                                                                                                   ELSE /\ IF CurOp(self).op = "debug"
                                                                                                                                                                                                              THEN /\ ip' = [ip EXCEPT ![self] = ip[self] + 1]
                                                                                                                                                                                                                   /\ stack' = [stack EXCEPT ![self] = << [ procedure |->  "debug_state",
@@ -4683,36 +4912,56 @@ c0(self) == /\ pc[self] = "c0"
                                                                                                                                                                                                                                   nreg, 
                                                                                                                                                                                                                                   ret, 
                                                                                                                                                                                                                                   muFreed, 
-                                                                                                                                                                                                                                  refs >>
-                                                                                                                                                                                                             ELSE /\ IF CurOp(self).op = "notify"
+                                                                                                                                                                                                                                  refs, 
+                                                                                                                                                                                                                                  cdw, 
+                                                                                                                                                                                                                                  ck >>
+                                                                                                                                                                                                             ELSE /\ IF CurOp(self).op = "debugcv"
                                                                                                                                                                                                                         THEN /\ ip' = [ip EXCEPT ![self] = ip[self] + 1]
-                                                                                                                                                                                                                             /\ note' = TRUE
-                                                                                                                                                                                                                             /\ sem' = [u \in Waiters |-> IF u \in nreg THEN SetV(sem[u]) ELSE sem[u]]
-                                                                                                                                                                                                                             /\ nreg' = {}
-                                                                                                                                                                                                                             /\ UNCHANGED << ret, 
-                                                                                                                                                                                                                                             muFreed, 
-                                                                                                                                                                                                                                             refs >>
-                                                                                                                                                                                                                        ELSE /\ IF CurOp(self).op = "decref"
-                                                                                                                                                                                                                                   THEN /\ ip' = [ip EXCEPT ![self] = ip[self] + 1]
-                                                                                                                                                                                                                                        /\ ret' = [ret EXCEPT ![self] = IF refs = 1 THEN 1 ELSE 0]
-                                                                                                                                                                                                                                        /\ refs' = refs - 1
-                                                                                                                                                                                                                                        /\ UNCHANGED muFreed
-                                                                                                                                                                                                                                   ELSE /\ IF CurOp(self).op = "freeiflast"
-                                                                                                                                                                                                                                              THEN /\ ip' = [ip EXCEPT ![self] = ip[self] + 1]
-                                                                                                                                                                                                                                                   /\ IF ret[self] = 1
-                                                                                                                                                                                                                                                         THEN /\ muFreed' = TRUE
-                                                                                                                                                                                                                                                         ELSE /\ TRUE
-                                                                                                                                                                                                                                                              /\ UNCHANGED muFreed
-                                                                                                                                                                                                                                              ELSE /\ ip' = [ip EXCEPT ![self] = ip[self] + 1]
-                                                                                                                                                                                                                                                   /\ UNCHANGED muFreed
-                                                                                                                                                                                                                                        /\ UNCHANGED << ret, 
-                                                                                                                                                                                                                                                        refs >>
+                                                                                                                                                                                                                             /\ stack' = [stack EXCEPT ![self] = << [ procedure |->  "debug_cv",
+                                                                                                                                                                                                                                                                      pc        |->  "c0",
+                                                                                                                                                                                                                                                                      cdw       |->  cdw[self],
+                                                                                                                                                                                                                                                                      ck        |->  ck[self] ] >>
+                                                                                                                                                                                                                                                                  \o stack[self]]
+                                                                                                                                                                                                                             /\ cdw' = [cdw EXCEPT ![self] = 0]
+                                                                                                                                                                                                                             /\ ck' = [ck EXCEPT ![self] = 0]
+                                                                                                                                                                                                                             /\ pc' = [pc EXCEPT ![self] = "dc_1_ld"]
                                                                                                                                                                                                                              /\ UNCHANGED << sem, 
                                                                                                                                                                                                                                              note, 
-                                                                                                                                                                                                                                             nreg >>
-                                                                                                                                                                                                                  /\ pc' = [pc EXCEPT ![self] = "c0"]
-                                                                                                                                                                                                                  /\ UNCHANGED << stack, 
-                                                                                                                                                                                                                                  dw, 
+                                                                                                                                                                                                                                             nreg, 
+                                                                                                                                                                                                                                             ret, 
+                                                                                                                                                                                                                                             muFreed, 
+                                                                                                                                                                                                                                             refs >>
+                                                                                                                                                                                                                        ELSE /\ IF CurOp(self).op = "notify"
+                                                                                                                                                                                                                                   THEN /\ ip' = [ip EXCEPT ![self] = ip[self] + 1]
+                                                                                                                                                                                                                                        /\ note' = TRUE
+                                                                                                                                                                                                                                        /\ sem' = [u \in Waiters |-> IF u \in nreg THEN SetV(sem[u]) ELSE sem[u]]
+                                                                                                                                                                                                                                        /\ nreg' = {}
+                                                                                                                                                                                                                                        /\ UNCHANGED << ret, 
+                                                                                                                                                                                                                                                        muFreed, 
+                                                                                                                                                                                                                                                        refs >>
+                                                                                                                                                                                                                                   ELSE /\ IF CurOp(self).op = "decref"
+                                                                                                                                                                                                                                              THEN /\ ip' = [ip EXCEPT ![self] = ip[self] + 1]
+                                                                                                                                                                                                                                                   /\ ret' = [ret EXCEPT ![self] = IF refs = 1 THEN 1 ELSE 0]
+                                                                                                                                                                                                                                                   /\ refs' = refs - 1
+                                                                                                                                                                                                                                                   /\ UNCHANGED muFreed
+                                                                                                                                                                                                                                              ELSE /\ IF CurOp(self).op = "freeiflast"
+                                                                                                                                                                                                                                                         THEN /\ ip' = [ip EXCEPT ![self] = ip[self] + 1]
+                                                                                                                                                                                                                                                              /\ IF ret[self] = 1
+                                                                                                                                                                                                                                                                    THEN /\ muFreed' = TRUE
+                                                                                                                                                                                                                                                                    ELSE /\ TRUE
+                                                                                                                                                                                                                                                                         /\ UNCHANGED muFreed
+                                                                                                                                                                                                                                                         ELSE /\ ip' = [ip EXCEPT ![self] = ip[self] + 1]
+                                                                                                                                                                                                                                                              /\ UNCHANGED muFreed
+                                                                                                                                                                                                                                                   /\ UNCHANGED << ret, 
+                                                                                                                                                                                                                                                                   refs >>
+                                                                                                                                                                                                                                        /\ UNCHANGED << sem, 
+                                                                                                                                                                                                                                                        note, 
+                                                                                                                                                                                                                                                        nreg >>
+                                                                                                                                                                                                                             /\ pc' = [pc EXCEPT ![self] = "c0"]
+                                                                                                                                                                                                                             /\ UNCHANGED << stack, 
+                                                                                                                                                                                                                                             cdw, 
+                                                                                                                                                                                                                                             ck >>
+                                                                                                                                                                                                                  /\ UNCHANGED << dw, 
                                                                                                                                                                                                                                   k >>
                                                                                                                                                                                                        /\ UNCHANGED << all, 
                                                                                                                                                                                                                        old_c, 
@@ -4773,7 +5022,7 @@ Next == (\E self \in ProcSet:  \/ lock_slow(self) \/ unlock_slow(self)
                                \/ try_acquire(self) \/ mu_wait(self)
                                \/ wake_waiters(self) \/ cv_wake(self)
                                \/ cv_wait(self) \/ wait_n(self)
-                               \/ debug_state(self))
+                               \/ debug_state(self) \/ debug_cv(self))
            \/ (\E self \in Threads: thr(self))
            \/ Terminating
 
@@ -4784,16 +5033,16 @@ Termination == <>(\A self \in ProcSet: pc[self] = "Done")
 \* END TRANSLATION
 
 \* ====================================================================================
-LocalLabels == {"cs_3b_l", "cs_rmq_l", "cw_17_l", "cw_18_l", "cw_8b_l", "db_rel_l", "db_w_l", "mw_11_l", "mw_11b_l", "mw_13_l", "mw_14_l", "mw_9b_l", "us_after_l", "us_merge_l", "us_pass_l", "us_rel_l", "us_rmq_l", "us_scan_l", "wn_13_l", "ww_0_l", "ww_4b_l"}
+LocalLabels == {"cs_3b_l", "cs_rmq_l", "cw_17_l", "cw_18_l", "cw_8b_l", "db_rel_l", "db_w_l", "dc_w_l", "mw_11_l", "mw_11b_l", "mw_13_l", "mw_14_l", "mw_9b_l", "us_after_l", "us_merge_l", "us_pass_l", "us_rel_l", "us_rmq_l", "us_scan_l", "wn_13_l", "ww_0_l", "ww_4b_l"}
 Step(self) == \/ lock_slow(self) \/ unlock_slow(self) \/ mu_lock(self) \/ mu_trylock(self) \/ mu_unlock(self)
               \/ sem_wait(self) \/ try_acquire(self) \/ mu_wait(self) \/ wake_waiters(self) \/ cv_wake(self)
-              \/ cv_wait(self) \/ wait_n(self) \/ debug_state(self) \/ thr(self)
+              \/ cv_wait(self) \/ wait_n(self) \/ debug_state(self) \/ debug_cv(self) \/ thr(self)
 \* the clock matters only to a thread parked in a timed semaphore wait whose deadline is still ahead
 TickUseful == \E u \in Threads : \/ (pc[u] = "sw_2_pd" /\ sdl[u] > now)
                                  \/ (pc[u] = "wn_7_pd" /\ ndl[u] > now)
 Tick == /\ now < MaxNow /\ TickUseful
         /\ now' = now + 1
-        /\ UNCHANGED <<pc, word, queue, cvword, cvq, waiting, rmc, cvmu, wl, wc, sc, nww, nwsem, sem, data, note, nreg, held, ret, sres, picked, sleeps, inlock, ip, mw, pool, nalloc, nq, muFreed, refs, nwalive, taint3, stack, lt_l, clear, old_, zlo, zhi, wcnt, lw, lt_u, old_u, tc, nwl, wtrs, wake, wty, sor, cor, rmq_, late, lt_m, old_m, lt_mu, old_mu, lt_mu_, ww, old_mu_, sdl, scn, lt, rc, old_t, c, dl_, cn_, old_mu_w, lt_, first, out_, rc_, hadw, ata, so_, havel, tw, allr, omw, fca, sorw, all, old_c, tws, alr, rmq, dl, cn, gen, old_cv, lt_c, rc_c, so, out, ndl, old, wq, dw, k>>
+        /\ UNCHANGED <<pc, word, queue, cvword, cvq, waiting, rmc, cvmu, wl, wc, sc, nww, nwsem, sem, data, note, nreg, held, ret, sres, picked, sleeps, inlock, ip, mw, pool, nalloc, nq, muFreed, refs, nwalive, taint3, stack, lt_l, clear, old_, zlo, zhi, wcnt, lw, lt_u, old_u, tc, nwl, wtrs, wake, wty, sor, cor, rmq_, late, lt_m, old_m, lt_mu, old_mu, lt_mu_, ww, old_mu_, sdl, scn, lt, rc, old_t, c, dl_, cn_, old_mu_w, lt_, first, out_, rc_, hadw, ata, so_, havel, tw, allr, omw, fca, sorw, all, old_c, tws, alr, rmq, dl, cn, gen, old_cv, lt_c, rc_c, so, out, ndl, old, wq, dw, k, cdw, ck>>
 \* Local steps (no shared operation) commute with every step of other threads, so they are taken
 \* eagerly: a thread at a local label runs before anything else happens.
 LocalPending == {u \in Threads : pc[u] \in LocalLabels}
